@@ -1,23 +1,24 @@
-import RisorModel.C04.FragCert
+import RisorModel.C04.FunCert
 import RisorModel.C04.CertCore
 import RisorModel.C04.Props
-import RisorModel.C01.FragLemmas
+import RisorModel.C01.FunLemmas
 /-!
-C04 on the proved fragment — helper lemmas.
+C04 on C01's function fragment F4 — helper lemmas.
 
-`Ctx` (generic, `CertCore.lean`; here at the fragment's instruction type: `FCtx`) fixes one whole
-code (`code`), the heights of all its slots (`H`) and the height at its
-end (`hend`); `G.cert` is the certificate they give.  `G.Ok pc` is `check`'s per-offset test
-(`checkAt`) at `pc`, `G.Tgt p x` says that offset `p` is a legal place to arrive at with height
-`x` (`okTarget`).  `G.At pc c hs` says that the code piece `c` with heights `hs` sits at offset
-`pc`.  Per-instruction lemmas (`okwin_*`) reduce `G.Ok` to `G.Tgt` of the successors; the
-lemmas per construct (`ok_*`) compose them along the shape of `Frag.comp`; `ok_all` is the
+The generic development of `CertCore.lean` (`Ctx`, windows, `okwin_*` per instruction KIND) at the
+function fragment's instruction type (`UCtx`).  The lemmas per construct (`ok_*`) compose the
+per-instruction lemmas along the shape of `Fun.comp ls kb kc` — for every set `ls` of local names:
+`LoadFast` / `StoreFast` have the kinds of `LoadGlobal` / `StoreGlobal` (`loadV_kind`,
+`storeV_kind`) —; new with respect to `FragCertLemmas.lean`: calls (`ok_call`, `ok_args`),
+`return` (`ok_return`: no exit target is needed), function declarations (`ok_fundecl`,
+`ok_funlit`), and whole function bodies (`ok_fnStmts` along `Fun.compFnStmts`).  `ok_all` is the
 structural induction.
 -/
-namespace Risor.C04
-open Risor.C01 Risor.C01.Frag
+namespace Risor.C04.FunC
+open Risor.C01 Risor.C01.Fun
+open Risor.C01.Frag (isNilL postName isDefault opOK countDefault assignK)
 
-/-! windows, masking, `Ctx` and the per-instruction lemmas: `CertCore.lean` -/
+variable {ls : List String}
 
 /-! ### lengths of the height lists: those of the code pieces -/
 
@@ -28,18 +29,20 @@ theorem preH_length (x : Nat) (h : N) : (preH x h).length = preLen h := by
 macro "hlen_rest" : tactic =>
   `(tactic| (refine ⟨?_, by intro k; simp [htsVals, valsLen], by intro k; simp [htsCmpCase, caseCmpLen],
       by intro b; simp [htsCmp, cmpLen], by intro a; simp [htsBody, caseBodyLen],
-      by intro d; simp [htsBodies, bodiesLen], by intro s; simp [htsDfltBody, dfltBodyLen], by intro s; simp [htsDflt, defLen]⟩))
+      by intro d; simp [htsBodies, bodiesLen], by intro s; simp [htsDfltBody, dfltBodyLen], by intro s; simp [htsDflt, defLen],
+      by intro s; simp [htsArgs, argsLen]⟩))
 
 theorem hts_lengths (n : N) :
     (∀ x, (hts x n).length = size n) ∧ (∀ s, (htsVals s n).length = valsLen n) ∧
     (∀ s, (htsCmpCase s n).length = caseCmpLen n) ∧ (∀ s, (htsCmp s n).length = cmpLen n) ∧
     (∀ s, (htsBody s n).length = caseBodyLen n) ∧ (∀ s, (htsBodies s n).length = bodiesLen n) ∧
-    (∀ s, (htsDfltBody s n).length = dfltBodyLen n) ∧ (∀ s, (htsDflt s n).length = defLen n) := by
+    (∀ s, (htsDfltBody s n).length = dfltBodyLen n) ∧ (∀ s, (htsDflt s n).length = defLen n) ∧
+    (∀ s, (htsArgs s n).length = argsLen n) := by
   induction n with
   | cons h t ihh iht =>
-    obtain ⟨h1, _, h3, _, h5, _, h7, _⟩ := ihh
-    obtain ⟨t1, t2, _, t4, _, t6, _, t8⟩ := iht
-    refine ⟨?_, ?_, ?_, ?_, ?_, ?_, ?_, ?_⟩
+    obtain ⟨h1, _, h3, _, h5, _, h7, _, _⟩ := ihh
+    obtain ⟨t1, t2, _, t4, _, t6, _, t8, t9⟩ := iht
+    refine ⟨?_, ?_, ?_, ?_, ?_, ?_, ?_, ?_, ?_⟩
     · intro x
       simp only [hts, size, List.length_append, preH_length]
       split <;> split <;> simp [h1, t1] <;> omega
@@ -50,8 +53,9 @@ theorem hts_lengths (n : N) :
     · intro s; simp [htsBodies, bodiesLen, h5, t6]
     · intro s; simp [htsDfltBody, dfltBodyLen]
     · intro s; simp only [htsDflt, defLen]; split <;> simp [h7, t8]
+    · intro s; simp [htsArgs, argsLen, h1, t9]
   | case_ vals body ihv ihb =>
-    refine ⟨?_, ?_, ?_, ?_, ?_, ?_, ?_, ?_⟩
+    refine ⟨?_, ?_, ?_, ?_, ?_, ?_, ?_, ?_, ?_⟩
     · intro x; simp [hts, size]
     · intro s; simp [htsVals, valsLen]
     · intro s; simp [htsCmpCase, caseCmpLen, ihv.2.1]
@@ -60,8 +64,9 @@ theorem hts_lengths (n : N) :
     · intro s; simp [htsBodies, bodiesLen]
     · intro s; simp [htsDfltBody, dfltBodyLen]
     · intro s; simp [htsDflt, defLen]
+    · intro s; simp [htsArgs, argsLen]
   | default_ body ihb =>
-    refine ⟨?_, ?_, ?_, ?_, ?_, ?_, ?_, ?_⟩
+    refine ⟨?_, ?_, ?_, ?_, ?_, ?_, ?_, ?_, ?_⟩
     · intro x; simp [hts, size]
     · intro s; simp [htsVals, valsLen]
     · intro s; simp [htsCmpCase, caseCmpLen]
@@ -70,6 +75,7 @@ theorem hts_lengths (n : N) :
     · intro s; simp [htsBodies, bodiesLen]
     · intro s; simp [htsDfltBody, dfltBodyLen, ihb.1]
     · intro s; simp [htsDflt, defLen]
+    · intro s; simp [htsArgs, argsLen]
   | «infix» op l r ihl ihr =>
     hlen_rest
     intro x
@@ -92,30 +98,34 @@ theorem hts_lengths (n : N) :
   | switch subj cases ihs ihc =>
     hlen_rest
     intro x
-    simp [hts, size, ihs.1, ihc.2.2.2.1, ihc.2.2.2.2.2.1, ihc.2.2.2.2.2.2.2]; omega
+    simp [hts, size, ihs.1, ihc.2.2.2.1, ihc.2.2.2.2.2.1, ihc.2.2.2.2.2.2.2.1]; omega
   | tern c a b ihc iha ihb => hlen_rest; intro x; simp [hts, size, ihc.1, iha.1, ihb.1]; omega
   | if_ c a b ihc iha ihb => hlen_rest; intro x; simp [hts, size, ihc.1, iha.1, ihb.1]; omega
   | forcond c b ihc ihb => hlen_rest; intro x; simp [hts, size, ihc.1, ihb.1]; omega
   | forever b ihb => hlen_rest; intro x; simp [hts, size, ihb.1]
   | neg e ih => hlen_rest; intro x; simp [hts, size, ih.1]
   | not e ih => hlen_rest; intro x; simp [hts, size, ih.1]
-  | var x e ih => hlen_rest; intro x; simp [hts, size, ih.1]
+  | var x e ih => hlen_rest; intro x; simp only [hts, size]; split <;> simp [ih.1]
+  | call f args ihf iha => hlen_rest; intro x; simp [hts, size, ihf.1, iha.2.2.2.2.2.2.2.2]; omega
+  | return_ e ih => hlen_rest; intro x; simp [hts, size, ih.1]
   | block s ih => hlen_rest; intro x; simp [hts, size, ih.1]
   | prog s ih => hlen_rest; intro x; simp [hts, size, ih.1]
-  | expr s ih => hlen_rest; intro x; simp [hts, size, ih.1]
+  | expr s ih => hlen_rest; intro x; simp only [hts, size]; split <;> simp [ih.1]
   | _ => hlen_rest; intro x; simp [hts, size]
 
 theorem hts_length (n : N) (x : Nat) : (hts x n).length = size n := (hts_lengths n).1 x
 theorem htsVals_length (n : N) (s : Nat) : (htsVals s n).length = valsLen n := (hts_lengths n).2.1 s
+theorem htsCmpCase_length (n : N) (s : Nat) : (htsCmpCase s n).length = caseCmpLen n := (hts_lengths n).2.2.1 s
 theorem htsCmp_length (n : N) (s : Nat) : (htsCmp s n).length = cmpLen n := (hts_lengths n).2.2.2.1 s
 theorem htsBody_length (n : N) (s : Nat) : (htsBody s n).length = caseBodyLen n := (hts_lengths n).2.2.2.2.1 s
 theorem htsBodies_length (n : N) (s : Nat) : (htsBodies s n).length = bodiesLen n := (hts_lengths n).2.2.2.2.2.1 s
-theorem htsDflt_length (n : N) (s : Nat) : (htsDflt s n).length = defLen n := (hts_lengths n).2.2.2.2.2.2.2 s
+theorem htsDflt_length (n : N) (s : Nat) : (htsDflt s n).length = defLen n := (hts_lengths n).2.2.2.2.2.2.2.1 s
+theorem htsArgs_length (n : N) (s : Nat) : (htsArgs s n).length = argsLen n := (hts_lengths n).2.2.2.2.2.2.2.2 s
 
 /-- the code of a node of the fragment begins with an instruction, and its heights with the
     entry height -/
 theorem head_comp (n : N) : wf n = true → ∀ kb kc x,
-    ∃ i c t, comp kb kc n = some i :: c ∧ hts x n = x :: t := by
+    ∃ i c t, comp ls kb kc n = some i :: c ∧ hts x n = x :: t := by
   induction n with
   | nilLit => intro _ kb kc x; exact ⟨_, _, _, rfl, rfl⟩
   | none_ => intro _ kb kc x; exact ⟨_, _, _, rfl, rfl⟩
@@ -168,10 +178,28 @@ theorem head_comp (n : N) : wf n = true → ∀ kb kc x,
     exact ⟨i, c, t, by simp only [comp, e1], by simp only [hts, e2]⟩
   | expr s ih =>
     intro hw kb kc x
-    simp only [wf, Bool.and_eq_true] at hw
-    obtain ⟨i, c, t, e1, e2⟩ := ih hw.2 kb kc x
-    exact ⟨i, c, t, by simp only [comp, e1], by simp only [hts, e2]⟩
+    cases hf : isFuncLit s
+    · simp only [wf, hf, Bool.false_eq_true, ↓reduceIte, Bool.and_eq_true] at hw
+      obtain ⟨i, c, t, e1, e2⟩ := ih hw.2 kb kc x
+      exact ⟨i, c, t, by simp only [comp, hf, Bool.false_eq_true, ↓reduceIte, e1],
+        by simp only [hts, hf, Bool.false_eq_true, ↓reduceIte, e2]⟩
+    · exact ⟨_, _, _, by simp only [comp, hf, ↓reduceIte, two, List.cons_append]; rfl,
+        by simp only [hts, hf, ↓reduceIte, r2, List.cons_append]; rfl⟩
   | var y e ih =>
+    intro hw kb kc x
+    cases hf : isFuncLit e
+    · simp only [wf, hf, Bool.false_eq_true, ↓reduceIte, Bool.and_eq_true] at hw
+      obtain ⟨i, c, t, e1, e2⟩ := ih hw.2 0 0 x
+      exact ⟨i, _, _, by simp only [comp, hf, Bool.false_eq_true, ↓reduceIte, e1, List.cons_append]; rfl,
+        by simp only [hts, hf, Bool.false_eq_true, ↓reduceIte, e2, List.cons_append]; rfl⟩
+    · exact ⟨_, _, _, by simp only [comp, hf, ↓reduceIte, two, List.cons_append]; rfl,
+        by simp only [hts, hf, ↓reduceIte, r2, List.cons_append]; rfl⟩
+  | call f args ihf _ =>
+    intro hw kb kc x
+    simp only [wf, Bool.and_eq_true] at hw
+    obtain ⟨i, c, t, e1, e2⟩ := ihf hw.1.2 0 0 x
+    exact ⟨i, _, _, by simp only [comp, e1, List.cons_append]; rfl, by simp only [hts, e2, List.cons_append]; rfl⟩
+  | return_ e ih =>
     intro hw kb kc x
     simp only [wf, Bool.and_eq_true] at hw
     obtain ⟨i, c, t, e1, e2⟩ := ih hw.2 0 0 x
@@ -219,20 +247,97 @@ theorem head_comp (n : N) : wf n = true → ∀ kb kc x,
           by simp only [hts, preH, hp, hn, e2, List.nil_append, List.cons_append]; rfl⟩
   | _ => intro hw; simp [wf] at hw
 
-/-! ### one code with its heights: the generic development (`CertCore.lean`: `Ctx`, windows,
-    `okwin_*`) at the fragment's instruction type -/
 
-/-- a code of the fragment (a main code object) with its heights -/
-abbrev FCtx := Ctx Frag.FIns insOf
+/-! ### whole function bodies -/
 
-namespace Ctx
+theorem htsFn_length (ls : List String) (n : N) : (htsFn n).length = (compFnStmts ls n).length := by
+  induction n with
+  | cons h t _ iht =>
+    simp only [htsFn, compFnStmts]
+    split
+    · rw [hts_length, comp_length]
+    · split
+      · simp only [List.length_append, preH_length, pre_length, hts_length, comp_length]
+        split <;> rfl
+      · simp only [List.length_append, preH_length, pre_length, hts_length, comp_length, iht]
+        split <;> rfl
+  | _ => rfl
 
-variable {G : FCtx}
+/-- the code of a function body begins with an instruction, entered at height 0 -/
+theorem head_fnStmts (ls : List String) (n : N) (hl : isL n = true) (hw : wf n = true) :
+    ∃ i c t, compFnStmts ls n = some i :: c ∧ htsFn n = 0 :: t := by
+  cases n with
+  | cons h t =>
+    simp only [wf, Bool.and_eq_true] at hw
+    have hwh : wf h = true := hw.1.2
+    simp only [compFnStmts, htsFn]
+    cases hr : isReturn h
+    · simp only [Bool.false_eq_true, ↓reduceIte]
+      cases hp : postName h with
+      | some y =>
+        cases hn : isNilL t
+        · exact ⟨_, _, _, by simp only [pre, hp, two, Bool.false_eq_true, ↓reduceIte, List.cons_append, List.append_assoc]; rfl,
+            by simp only [preH, hp, r2, Bool.false_eq_true, ↓reduceIte, List.cons_append, List.append_assoc]; rfl⟩
+        · exact ⟨_, _, _, by simp only [pre, hp, two, ↓reduceIte, List.cons_append, List.append_assoc]; rfl,
+            by simp only [preH, hp, r2, ↓reduceIte, List.cons_append, List.append_assoc]; rfl⟩
+      | none =>
+        obtain ⟨i, c, t', e1, e2⟩ := head_comp (ls := ls) h hwh 0 0 0
+        cases hn : isNilL t
+        · exact ⟨i, _, _, by simp only [pre, hp, e1, Bool.false_eq_true, ↓reduceIte, List.nil_append, List.cons_append]; rfl,
+            by simp only [preH, hp, e2, Bool.false_eq_true, ↓reduceIte, List.nil_append, List.cons_append]; rfl⟩
+        · exact ⟨i, _, _, by simp only [pre, hp, e1, ↓reduceIte, List.nil_append, List.cons_append]; rfl,
+            by simp only [preH, hp, e2, ↓reduceIte, List.nil_append, List.cons_append]; rfl⟩
+    · simp only [↓reduceIte]
+      exact head_comp h hwh 0 0 0
+  | nilL => exact ⟨_, _, _, rfl, rfl⟩
+  | _ => simp [isL] at hl
 
-theorem At.comp_cons {pc kb kc x : Nat} {n : N} {c2 : Frag.Code} {h2 : List Nat}
-    (h : G.At pc (comp kb kc n ++ c2) (hts x n ++ h2)) :
-    G.At pc (comp kb kc n) (hts x n) ∧ G.At (pc + size n) c2 h2 :=
-  h.split (comp_length n kb kc) (hts_length n x)
+/-! ### one code object with its heights: `CertCore.lean` at the function fragment's instructions -/
+
+/-- a code object of a compiled program of the function fragment with its heights -/
+abbrev UCtx := Ctx Fun.FIns insOf
+
+end Risor.C04.FunC
+
+namespace Risor.C04.Ctx
+open Risor.C01 Risor.C01.Fun Risor.C04.FunC
+open Risor.C01.Frag (isNilL postName isDefault opOK countDefault assignK)
+
+variable {G : UCtx} {ls : List String}
+
+theorem At.fcomp_cons {pc kb kc x : Nat} {n : N} {c2 : Fun.Code} {h2 : List Nat}
+    (h : G.At pc (comp ls kb kc n ++ c2) (FunC.hts x n ++ h2)) :
+    G.At pc (comp ls kb kc n) (FunC.hts x n) ∧ G.At (pc + size n) c2 h2 :=
+  h.split (comp_length n kb kc) (FunC.hts_length n x)
+
+/-- a sub-node's code is a legal target at its entry height -/
+theorem At.ftgt_comp {pc kb kc x : Nat} {n : N} (hw : wf n = true) (h : G.At pc (comp ls kb kc n) (FunC.hts x n)) :
+    G.Tgt pc x := by
+  obtain ⟨i, c, t, e1, e2⟩ := FunC.head_comp (ls := ls) n hw kb kc x
+  rw [e1, e2] at h
+  exact .inl ⟨i, Win.head h.1, Win.head h.2⟩
+
+/-- `Load x; PopTop` before a statement `x++` -/
+theorem At.fpre_cons {h : N} {pc x : Nat} {c2 : Fun.Code} {h2 : List Nat}
+    (hat : G.At pc (pre ls h ++ c2) (FunC.preH x h ++ h2)) :
+    G.At pc (pre ls h) (FunC.preH x h) ∧ G.At (pc + preLen h) c2 h2 :=
+  hat.split (pre_length h) (FunC.preH_length x h)
+
+/-- a function body's code (the rest of one, after a statement) is a legal target at height 0 -/
+theorem At.ftgt_fn {pc : Nat} {n : N} (hl : isL n = true) (hw : wf n = true)
+    (h : G.At pc (compFnStmts ls n) (FunC.htsFn n)) : G.Tgt pc 0 := by
+  obtain ⟨i, c, t, e1, e2⟩ := FunC.head_fnStmts ls n hl hw
+  rw [e1, e2] at h
+  exact .inl ⟨i, Win.head h.1, Win.head h.2⟩
+
+end Risor.C04.Ctx
+
+namespace Risor.C04.FunC
+open Risor.C01 Risor.C01.Fun
+open Risor.C01.Frag (isNilL postName isDefault opOK countDefault assignK)
+open Risor.C04.Ctx
+
+variable {G : UCtx} {ls : List String}
 
 theorem okwin_jf {pc x d : Nat} (h : G.At pc (two (.jf d)) (r2 x)) (ht : G.Tgt (pc + d) x) : G.OkWin pc 2 :=
   okwin_jumpF h rfl ht
@@ -241,68 +346,60 @@ theorem okwin_jb {pc x d : Nat} (h : G.At pc (two (.jb d)) (r2 x)) (hd : d ≤ p
     G.OkWin pc 2 :=
   okwin_jumpB h rfl hd ht
 
-
 /-! ### the statements of the structural induction, one per mutual function of `comp` -/
 
 /-- a node: entered at `x`, left at `x + exitD n`; a `break` / `continue` that escapes it
     jumps with the height `x` the node itself was entered with -/
-def PComp (G : FCtx) (n : N) : Prop :=
-  wf n = true → ∀ kb kc x pc, G.At pc (comp kb kc n) (hts x n) →
+def PComp (G : UCtx) (ls : List String) (n : N) : Prop :=
+  wf n = true → ∀ kb kc x pc, G.At pc (comp ls kb kc n) (hts x n) →
     G.Tgt (pc + size n) (x + exitD n) →
     (escapes n = true → G.Tgt (pc + size n + kb) x ∧ G.Tgt (pc + size n + kc) x) →
     G.OkWin pc (size n)
 
 /-- comparisons of one case with the subject on the stack (height `s + 1`): fall through and
     match both at `s + 1`; also: the piece (or what follows it) is a legal target at `s + 1` -/
-def PVals (G : FCtx) (n : N) : Prop :=
-  wfVals n = true → ∀ k s pc, G.At pc (compVals k n) (htsVals (s + 1) n) →
+def PVals (G : UCtx) (ls : List String) (n : N) : Prop :=
+  wfVals n = true → ∀ k s pc, G.At pc (compVals ls k n) (htsVals (s + 1) n) →
     G.Tgt (pc + valsLen n) (s + 1) → G.Tgt (pc + valsLen n + k) (s + 1) →
     G.OkWin pc (valsLen n) ∧ G.Tgt pc (s + 1)
 
 /-- the comparisons of one case; its body sits `k` slots after them -/
-def PCmpCase (G : FCtx) (n : N) : Prop :=
-  wfCase n = true → ∀ k a s pc, G.At pc (compCmpCase k n) (htsCmpCase (s + 1) n) →
+def PCmpCase (G : UCtx) (ls : List String) (n : N) : Prop :=
+  wfCase n = true → ∀ k a s pc, G.At pc (compCmpCase ls k n) (htsCmpCase (s + 1) n) →
     G.Tgt (pc + caseCmpLen n) (s + 1) →
-    G.At (pc + caseCmpLen n + k) (compBody a n) (htsBody (s + 1) n) →
+    G.At (pc + caseCmpLen n + k) (compBody ls a n) (htsBody (s + 1) n) →
     G.OkWin pc (caseCmpLen n) ∧ G.Tgt pc (s + 1)
 
 /-- the comparison section; the bodies of the same cases sit `2 + before` slots after it -/
-def PCmp (G : FCtx) (n : N) : Prop :=
-  wfCases n = true → ∀ before d s pc, G.At pc (compCmp before n) (htsCmp (s + 1) n) →
+def PCmp (G : UCtx) (ls : List String) (n : N) : Prop :=
+  wfCases n = true → ∀ before d s pc, G.At pc (compCmp ls before n) (htsCmp (s + 1) n) →
     G.Tgt (pc + cmpLen n) (s + 1) →
-    G.At (pc + cmpLen n + 2 + before) (compBodies d n) (htsBodies (s + 1) n) →
+    G.At (pc + cmpLen n + 2 + before) (compBodies ls d n) (htsBodies (s + 1) n) →
     G.OkWin pc (cmpLen n) ∧ G.Tgt pc (s + 1)
 
 /-- one case body and its jump to the `Swap` -/
-def PBody (G : FCtx) (n : N) : Prop :=
-  wfCase n = true → ∀ a s pc, G.At pc (compBody a n) (htsBody s n) →
+def PBody (G : UCtx) (ls : List String) (n : N) : Prop :=
+  wfCase n = true → ∀ a s pc, G.At pc (compBody ls a n) (htsBody s n) →
     G.Tgt (pc + caseBodyLen n + a) (s + 1) → G.OkWin pc (caseBodyLen n)
 
-def PBodies (G : FCtx) (n : N) : Prop :=
-  wfCases n = true → ∀ d s pc, G.At pc (compBodies d n) (htsBodies s n) →
+def PBodies (G : UCtx) (ls : List String) (n : N) : Prop :=
+  wfCases n = true → ∀ d s pc, G.At pc (compBodies ls d n) (htsBodies s n) →
     G.Tgt (pc + bodiesLen n + d) (s + 1) → G.OkWin pc (bodiesLen n)
 
-def PDfltBody (G : FCtx) (n : N) : Prop :=
-  wfCase n = true → ∀ s pc, G.At pc (compDfltBody n) (htsDfltBody s n) →
+def PDfltBody (G : UCtx) (ls : List String) (n : N) : Prop :=
+  wfCase n = true → ∀ s pc, G.At pc (compDfltBody ls n) (htsDfltBody s n) →
     G.Tgt (pc + dfltBodyLen n) (s + 1) → G.OkWin pc (dfltBodyLen n)
 
-def PDflt (G : FCtx) (n : N) : Prop :=
-  wfCases n = true → ∀ s pc, G.At pc (compDflt n) (htsDflt s n) →
+def PDflt (G : UCtx) (ls : List String) (n : N) : Prop :=
+  wfCases n = true → ∀ s pc, G.At pc (compDflt ls n) (htsDflt s n) →
     G.Tgt (pc + defLen n) (s + 1) → G.OkWin pc (defLen n) ∧ G.Tgt pc s
-
-/-- a sub-node's code is a legal target at its entry height -/
-theorem At.tgt_comp {pc kb kc x : Nat} {n : N} (hw : wf n = true) (h : G.At pc (comp kb kc n) (hts x n)) :
-    G.Tgt pc x := by
-  obtain ⟨i, c, t, e1, e2⟩ := head_comp n hw kb kc x
-  rw [e1, e2] at h
-  exact .inl ⟨i, Win.head h.1, Win.head h.2⟩
 
 theorem exitD_of_not_unit {n : N} (h : isUnitNode n = false) : exitD n = 1 := by simp [exitD, h]
 theorem exitD_of_unit {n : N} (h : isUnitNode n = true) : exitD n = 0 := by simp [exitD, h]
 
 /-- an operand (no break/continue escapes it) through its induction hypothesis -/
-theorem use_operand {n : N} (ih : PComp G n) (hw : wf n = true) (hx : escapes n = false) {pc x : Nat}
-    (hat : G.At pc (comp 0 0 n) (hts x n)) (ht : G.Tgt (pc + size n) (x + exitD n)) : G.OkWin pc (size n) :=
+theorem use_operand {n : N} (ih : PComp G ls n) (hw : wf n = true) (hx : escapes n = false) {pc x : Nat}
+    (hat : G.At pc (comp ls 0 0 n) (hts x n)) (ht : G.Tgt (pc + size n) (x + exitD n)) : G.OkWin pc (size n) :=
   ih hw 0 0 x pc hat ht (by intro h; rw [hx] at h; cases h)
 
 /-! ### leaves -/
@@ -311,10 +408,25 @@ theorem use_operand {n : N} (ih : PComp G n) (hw : wf n = true) (hx : escapes n 
 theorem ok_pop {pc x : Nat} (h : G.At pc (one .popTop) (r1 (x + 1))) (ht : G.Tgt (pc + 1) x) : G.OkWin pc 1 :=
   ok_pop1 h rfl rfl ht
 
-/-- `StoreGlobal` at height `x + 1` -/
-theorem ok_store {pc x : Nat} {y : String} (h : G.At pc (two (.storeG y)) (r2 (x + 1))) (ht : G.Tgt (pc + 2) x) :
+/-- variable access: whichever opcode the resolution picks (`LoadFast` / `LoadGlobal`,
+    `StoreFast` / `StoreGlobal`), the effect on the stack height is the same -/
+theorem loadV_kind (ls : List String) (y : String) :
+    (insOf (loadV ls y)).kind = .fall 0 1 ∧ (insOf (loadV ls y)).size = 2 := by
+  unfold loadV; split <;> exact ⟨rfl, rfl⟩
+
+theorem storeV_kind (ls : List String) (y : String) :
+    (insOf (storeV ls y)).kind = .fall 1 0 ∧ (insOf (storeV ls y)).size = 2 := by
+  unfold storeV; split <;> exact ⟨rfl, rfl⟩
+
+/-- a load of a variable at height `x` -/
+theorem ok_load {pc x : Nat} {y : String} (h : G.At pc (two (loadV ls y)) (r2 x)) (ht : G.Tgt (pc + 2) (x + 1)) :
     G.OkWin pc 2 :=
-  ok_pop2 h rfl rfl ht
+  ok_push2 h (loadV_kind ls y).1 (loadV_kind ls y).2 ht
+
+/-- a store to a variable at height `x + 1` -/
+theorem ok_store {pc x : Nat} {y : String} (h : G.At pc (two (storeV ls y)) (r2 (x + 1))) (ht : G.Tgt (pc + 2) x) :
+    G.OkWin pc 2 :=
+  ok_pop2 h (storeV_kind ls y).1 (storeV_kind ls y).2 ht
 
 
 theorem opIns_kind (op : BinOp) : (insOf (opIns op)).kind = .fall 2 1 ∧ (insOf (opIns op)).size = 2 := by
@@ -322,8 +434,8 @@ theorem opIns_kind (op : BinOp) : (insOf (opIns op)).kind = .fall 2 1 ∧ (insOf
 
 /-! ### expressions -/
 
-theorem ok_infix (op : BinOp) (l r : N) (ihl : PComp G l) (ihr : PComp G r) (hand : op ≠ .and) (hor : op ≠ .or) :
-    PComp G (.infix op l r) := by
+theorem ok_infix (op : BinOp) (l r : N) (ihl : PComp G ls l) (ihr : PComp G ls r) (hand : op ≠ .and) (hor : op ≠ .or) :
+    PComp G ls (.infix op l r) := by
   intro hw kb kc x pc hat hexit _
   simp only [wf, Bool.and_eq_true, Bool.not_eq_true'] at hw
   obtain ⟨⟨⟨⟨⟨⟨_, hel⟩, her⟩, hxl⟩, hxr⟩, hwl⟩, hwr⟩ := hw
@@ -331,27 +443,27 @@ theorem ok_infix (op : BinOp) (l r : N) (ihl : PComp G l) (ihr : PComp G r) (han
   have hex : exitD (.infix op l r) = 1 := by simp [exitD, isUnitNode]
   rw [hsz, hex] at hexit
   simp only [comp, hts, hand, hor, ↓reduceIte, List.append_assoc] at hat
-  obtain ⟨al, hat⟩ := hat.comp_cons
-  obtain ⟨ar, ab⟩ := hat.comp_cons
+  obtain ⟨al, hat⟩ := hat.fcomp_cons
+  obtain ⟨ar, ab⟩ := hat.fcomp_cons
   rw [hsz]
   refine (use_operand ihl hwl hxl al ?_).append
     ((use_operand ihr hwr hxr ar ?_).append (ok_bin ab (opIns_kind op).1 (opIns_kind op).2 ?_))
-  · rw [exitD_of_not_unit (isE_not_unit hel)]; exact ar.tgt_comp hwr
+  · rw [exitD_of_not_unit (isE_not_unit hel)]; exact ar.ftgt_comp hwr
   · rw [exitD_of_not_unit (isE_not_unit her)]; exact ab.tgt_two.cast (by omega) (by omega)
   · exact hexit.cast (by omega) (by omega)
 
 /-- `l && r` / `l || r`: the short-circuit jump leaves with the copy of the left value -/
 theorem ok_sc (l r : N) (j : FIns) (k : Nat) (hj : (insOf j).kind = .condF (size r + 5)) (hjs : (insOf j).size = 2)
-    (ihl : PComp G l) (ihr : PComp G r) (hwl : wf l = true) (hwr : wf r = true)
+    (ihl : PComp G ls l) (ihr : PComp G ls r) (hwl : wf l = true) (hwr : wf r = true)
     (hxl : escapes l = false) (hxr : escapes r = false) (hel : isE l = true) (her : isE r = true) {pc x : Nat}
-    (hat : G.At pc (comp 0 0 l ++ (two (.copy 0) ++ (two j ++ (comp 0 0 r ++ (two (.binary k) ++ one .nop)))))
+    (hat : G.At pc (comp ls 0 0 l ++ (two (.copy 0) ++ (two j ++ (comp ls 0 0 r ++ (two (.binary k) ++ one .nop)))))
       (hts x l ++ (r2 (x + 1) ++ (r2 (x + 2) ++ (hts (x + 1) r ++ (r2 (x + 2) ++ r1 (x + 1)))))))
     (hexit : G.Tgt (pc + (size l + (2 + (2 + (size r + (2 + 1)))))) (x + 1)) :
     G.OkWin pc (size l + (2 + (2 + (size r + (2 + 1))))) := by
-  obtain ⟨al, hat⟩ := hat.comp_cons
+  obtain ⟨al, hat⟩ := hat.fcomp_cons
   obtain ⟨acp, hat⟩ := hat.two_cons
   obtain ⟨aj, hat⟩ := hat.two_cons
-  obtain ⟨ar, hat⟩ := hat.comp_cons
+  obtain ⟨ar, hat⟩ := hat.fcomp_cons
   obtain ⟨ab, an⟩ := hat.two_cons
   refine (use_operand ihl hwl hxl al ?_).append ((okwin_need2 acp (a := 1) (b := 1) rfl rfl (by omega) ?_).append
     ((okwin_cond aj hj hjs (by omega) ?_ ?_).append ((use_operand ihr hwr hxr ar ?_).append
@@ -359,12 +471,12 @@ theorem ok_sc (l r : N) (j : FIns) (k : Nat) (hj : (insOf j).kind = .condF (size
   · rw [exitD_of_not_unit (isE_not_unit hel)]; exact acp.tgt_two
   · exact aj.tgt_two.cast (by omega) (by omega)
   · exact hexit.cast (by omega) (by omega)
-  · exact (ar.tgt_comp hwr).cast (by omega) (by omega)
+  · exact (ar.ftgt_comp hwr).cast (by omega) (by omega)
   · rw [exitD_of_not_unit (isE_not_unit her)]; exact ab.tgt_two.cast (by omega) (by omega)
   · exact an.tgt_one
   · exact hexit.cast (by omega) (by omega)
 
-theorem ok_and (l r : N) (ihl : PComp G l) (ihr : PComp G r) : PComp G (.infix .and l r) := by
+theorem ok_and (l r : N) (ihl : PComp G ls l) (ihr : PComp G ls r) : PComp G ls (.infix .and l r) := by
   intro hw kb kc x pc hat hexit _
   simp only [wf, Bool.and_eq_true, Bool.not_eq_true'] at hw
   obtain ⟨⟨⟨⟨⟨⟨_, hel⟩, her⟩, hxl⟩, hxr⟩, hwl⟩, hwr⟩ := hw
@@ -375,7 +487,7 @@ theorem ok_and (l r : N) (ihl : PComp G l) (ihr : PComp G r) : PComp G (.infix .
   rw [hsz]
   exact ok_sc l r _ 6 rfl rfl ihl ihr hwl hwr hxl hxr hel her hat hexit
 
-theorem ok_or (l r : N) (ihl : PComp G l) (ihr : PComp G r) : PComp G (.infix .or l r) := by
+theorem ok_or (l r : N) (ihl : PComp G ls l) (ihr : PComp G ls r) : PComp G ls (.infix .or l r) := by
   intro hw kb kc x pc hat hexit _
   simp only [wf, Bool.and_eq_true, Bool.not_eq_true'] at hw
   obtain ⟨⟨⟨⟨⟨⟨_, hel⟩, her⟩, hxl⟩, hxr⟩, hwl⟩, hwr⟩ := hw
@@ -387,37 +499,37 @@ theorem ok_or (l r : N) (ihl : PComp G l) (ihr : PComp G r) : PComp G (.infix .o
   exact ok_sc l r _ 7 rfl rfl ihl ihr hwl hwr hxl hxr hel her hat hexit
 
 /-- `-e` / `!e` -/
-theorem ok_unary (e : N) (i : FIns) (hk : (insOf i).kind = .fall 1 1) (hs : (insOf i).size = 1) (ih : PComp G e)
+theorem ok_unary (e : N) (i : FIns) (hk : (insOf i).kind = .fall 1 1) (hs : (insOf i).size = 1) (ih : PComp G ls e)
     (hwe : wf e = true) (hxe : escapes e = false) (hee : isE e = true) {pc x : Nat}
-    (hat : G.At pc (comp 0 0 e ++ one i) (hts x e ++ r1 (x + 1))) (hexit : G.Tgt (pc + (size e + 1)) (x + 1)) :
+    (hat : G.At pc (comp ls 0 0 e ++ one i) (hts x e ++ r1 (x + 1))) (hexit : G.Tgt (pc + (size e + 1)) (x + 1)) :
     G.OkWin pc (size e + 1) := by
-  obtain ⟨ae, ai⟩ := hat.comp_cons
+  obtain ⟨ae, ai⟩ := hat.fcomp_cons
   refine (use_operand ih hwe hxe ae ?_).append (okwin_fall1 ai hk hs (by omega) ?_)
   · rw [exitD_of_not_unit (isE_not_unit hee)]; exact ai.tgt_one
   · exact hexit.cast (by omega) (by omega)
 
 /-- `c ? a : b` and `if c { a } else b`: both branches are entered at the node's own height,
     so a break/continue inside them jumps with that height -/
-theorem ok_cond (c a b : N) (ihc : PComp G c) (iha : PComp G a) (ihb : PComp G b)
+theorem ok_cond (c a b : N) (ihc : PComp G ls c) (iha : PComp G ls a) (ihb : PComp G ls b)
     (hwc : wf c = true) (hwa : wf a = true) (hwb : wf b = true) (hxc : escapes c = false)
     (huc : isUnitNode c = false) (hua : isUnitNode a = false) (hub : isUnitNode b = false) {pc x kb kc : Nat}
-    (hat : G.At pc (comp 0 0 c ++ (two (.pjf (size a + 4)) ++ (comp (kb + (size b + 2)) (kc + (size b + 2)) a
-        ++ (two (.jf (size b + 2)) ++ comp kb kc b))))
+    (hat : G.At pc (comp ls 0 0 c ++ (two (.pjf (size a + 4)) ++ (comp ls (kb + (size b + 2)) (kc + (size b + 2)) a
+        ++ (two (.jf (size b + 2)) ++ comp ls kb kc b))))
       (hts x c ++ (r2 (x + 1) ++ (hts x a ++ (r2 (x + 1) ++ hts x b)))))
     (hexit : G.Tgt (pc + (size c + (2 + (size a + (2 + size b))))) (x + 1))
     (hesc : (escapes a = true ∨ escapes b = true) →
       G.Tgt (pc + (size c + (2 + (size a + (2 + size b)))) + kb) x ∧
       G.Tgt (pc + (size c + (2 + (size a + (2 + size b)))) + kc) x) :
     G.OkWin pc (size c + (2 + (size a + (2 + size b)))) := by
-  obtain ⟨ac, hat⟩ := hat.comp_cons
+  obtain ⟨ac, hat⟩ := hat.fcomp_cons
   obtain ⟨aj, hat⟩ := hat.two_cons
-  obtain ⟨aa, hat⟩ := hat.comp_cons
+  obtain ⟨aa, hat⟩ := hat.fcomp_cons
   obtain ⟨af, ab⟩ := hat.two_cons
   refine (use_operand ihc hwc hxc ac ?_).append ((okwin_cond aj (i := .pjf (size a + 4)) (d := size a + 4) rfl rfl (by omega) ?_ ?_).append
     ((iha hwa _ _ x _ aa ?_ ?_).append ((okwin_jf af ?_).append (ihb hwb kb kc x _ ab ?_ ?_))))
   · rw [exitD_of_not_unit huc]; exact aj.tgt_two
-  · exact (ab.tgt_comp hwb).cast (by omega) (by omega)
-  · exact (aa.tgt_comp hwa).cast (by omega) (by omega)
+  · exact (ab.ftgt_comp hwb).cast (by omega) (by omega)
+  · exact (aa.ftgt_comp hwa).cast (by omega) (by omega)
   · rw [exitD_of_not_unit hua]; exact af.tgt_two
   · intro h
     obtain ⟨t1, t2⟩ := hesc (.inl h)
@@ -442,12 +554,7 @@ theorem not_unit_of_leaves {n : N} (hl : leaves n = true) : isUnitNode n = false
 theorem unit_of_isPost {n : N} (h : isPost n = true) (hl : leaves n = false) : isUnitNode n = true := by
   cases n <;> simp_all [isPost, leaves, isUnitNode]
 
-/-- `LoadGlobal x; PopTop` before a statement `x++` -/
-theorem At.pre_cons {h : N} {pc x : Nat} {c2 : Frag.Code} {h2 : List Nat} (hat : G.At pc (pre h ++ c2) (preH x h ++ h2)) :
-    G.At pc (pre h) (preH x h) ∧ G.At (pc + preLen h) c2 h2 :=
-  hat.split (pre_length h) (preH_length x h)
-
-theorem ok_pre (h : N) {pc x : Nat} (hat : G.At pc (pre h) (preH x h))
+theorem ok_pre (h : N) {pc x : Nat} (hat : G.At pc (pre ls h) (preH x h))
     (ht : G.Tgt (pc + preLen h) x) : G.OkWin pc (preLen h) := by
   unfold pre preH at hat
   unfold preLen at ht ⊢
@@ -456,9 +563,9 @@ theorem ok_pre (h : N) {pc x : Nat} (hat : G.At pc (pre h) (preH x h))
   | some y =>
     simp only [hp] at hat ht
     obtain ⟨a1, a2⟩ := hat.two_cons
-    exact (ok_push2 a1 rfl rfl a2.tgt_one).append (ok_pop a2 (ht.cast (by omega) rfl))
+    exact (ok_load a1 a2.tgt_one).append (ok_pop a2 (ht.cast (by omega) rfl))
 
-theorem ok_cons (h t : N) (ihh : PComp G h) (iht : PComp G t) : PComp G (.cons h t) := by
+theorem ok_cons (h t : N) (ihh : PComp G ls h) (iht : PComp G ls t) : PComp G ls (.cons h t) := by
   intro hw kb kc x pc hat hexit hesc
   simp only [wf, Bool.and_eq_true] at hw
   obtain ⟨⟨⟨hsh, hlt⟩, hwh⟩, hwt⟩ := hw
@@ -472,10 +579,10 @@ theorem ok_cons (h t : N) (ihh : PComp G h) (iht : PComp G t) : PComp G (.cons h
     rw [hsz] at hexit hesc ⊢
     simp only [comp, hts, hn, hl, Bool.false_eq_true, ↓reduceIte, List.nil_append, Nat.zero_add] at hat
     have hu := unit_of_isS hsh hl
-    obtain ⟨ap, hat⟩ := hat.pre_cons
-    obtain ⟨ah, at_⟩ := hat.comp_cons
-    refine (ok_pre h ap (ah.tgt_comp hwh)).append ((ihh hwh _ _ x _ ah ?_ ?_).append (iht hwt kb kc x _ at_ ?_ ?_))
-    · rw [exitD_of_unit hu]; exact (at_.tgt_comp hwt).cast (by omega) (by omega)
+    obtain ⟨ap, hat⟩ := hat.fpre_cons
+    obtain ⟨ah, at_⟩ := hat.fcomp_cons
+    refine (ok_pre h ap (ah.ftgt_comp hwh)).append ((ihh hwh _ _ x _ ah ?_ ?_).append (iht hwt kb kc x _ at_ ?_ ?_))
+    · rw [exitD_of_unit hu]; exact (at_.ftgt_comp hwt).cast (by omega) (by omega)
     · intro he
       obtain ⟨t1, t2⟩ := hesc (.inl he)
       exact ⟨t1.cast (by omega) rfl, t2.cast (by omega) rfl⟩
@@ -488,16 +595,16 @@ theorem ok_cons (h t : N) (ihh : PComp G h) (iht : PComp G t) : PComp G (.cons h
     rw [hsz] at hexit hesc ⊢
     simp only [comp, hts, hn, hl, Bool.false_eq_true, ↓reduceIte] at hat
     have hu := not_unit_of_leaves hl
-    obtain ⟨ap, hat⟩ := hat.pre_cons
-    obtain ⟨ah, hat⟩ := hat.comp_cons
+    obtain ⟨ap, hat⟩ := hat.fpre_cons
+    obtain ⟨ah, hat⟩ := hat.fcomp_cons
     obtain ⟨apop, at_⟩ := hat.one_cons
-    refine (ok_pre h ap (ah.tgt_comp hwh)).append ((ihh hwh _ _ x _ ah ?_ ?_).append
+    refine (ok_pre h ap (ah.ftgt_comp hwh)).append ((ihh hwh _ _ x _ ah ?_ ?_).append
       ((ok_pop apop ?_).append (iht hwt kb kc x _ at_ ?_ ?_)))
     · rw [exitD_of_not_unit hu]; exact apop.tgt_one
     · intro he
       obtain ⟨t1, t2⟩ := hesc (.inl he)
       exact ⟨t1.cast (by omega) rfl, t2.cast (by omega) rfl⟩
-    · exact at_.tgt_comp hwt
+    · exact at_.ftgt_comp hwt
     · rw [hext]; exact hexit.cast (by omega) rfl
     · intro he
       obtain ⟨t1, t2⟩ := hesc (.inr he)
@@ -507,9 +614,9 @@ theorem ok_cons (h t : N) (ihh : PComp G h) (iht : PComp G t) : PComp G (.cons h
     rw [hsz] at hexit hesc ⊢
     simp only [comp, hts, hn, hl, Bool.false_eq_true, ↓reduceIte] at hat
     have hu := unit_of_isS hsh hl
-    obtain ⟨ap, hat⟩ := hat.pre_cons
-    obtain ⟨ah, an⟩ := hat.comp_cons
-    refine (ok_pre h ap (ah.tgt_comp hwh)).append ((ihh hwh _ _ x _ ah ?_ ?_).append (ok_push1 an rfl rfl ?_))
+    obtain ⟨ap, hat⟩ := hat.fpre_cons
+    obtain ⟨ah, an⟩ := hat.fcomp_cons
+    refine (ok_pre h ap (ah.ftgt_comp hwh)).append ((ihh hwh _ _ x _ ah ?_ ?_).append (ok_push1 an rfl rfl ?_))
     · rw [exitD_of_unit hu]; exact an.tgt_one
     · intro he
       obtain ⟨t1, t2⟩ := hesc (.inl he)
@@ -520,33 +627,40 @@ theorem ok_cons (h t : N) (ihh : PComp G h) (iht : PComp G t) : PComp G (.cons h
     rw [hsz] at hexit hesc ⊢
     simp only [comp, hts, hn, hl, ↓reduceIte, List.append_nil, Nat.add_zero] at hat
     have hu := not_unit_of_leaves hl
-    obtain ⟨ap, ah⟩ := hat.pre_cons
-    refine (ok_pre h ap (ah.tgt_comp hwh)).append (ihh hwh _ _ x _ ah ?_ ?_)
+    obtain ⟨ap, ah⟩ := hat.fpre_cons
+    refine (ok_pre h ap (ah.ftgt_comp hwh)).append (ihh hwh _ _ x _ ah ?_ ?_)
     · rw [exitD_of_not_unit hu]; exact hexit.cast (by omega) rfl
     · intro he
       obtain ⟨t1, t2⟩ := hesc (.inl he)
       exact ⟨t1.cast (by omega) rfl, t2.cast (by omega) rfl⟩
 
 /-- `x := e` and `x = e` -/
-theorem ok_store_of (e : N) (y : String) (ih : PComp G e) (hwe : wf e = true) (hxe : escapes e = false)
+theorem ok_store_of (e : N) (y : String) (ih : PComp G ls e) (hwe : wf e = true) (hxe : escapes e = false)
     (hee : isE e = true) {pc x : Nat}
-    (hat : G.At pc (comp 0 0 e ++ two (.storeG y)) (hts x e ++ r2 (x + 1))) (hexit : G.Tgt (pc + (size e + 2)) x) :
+    (hat : G.At pc (comp ls 0 0 e ++ two (storeV ls y)) (hts x e ++ r2 (x + 1))) (hexit : G.Tgt (pc + (size e + 2)) x) :
     G.OkWin pc (size e + 2) := by
-  obtain ⟨ae, as⟩ := hat.comp_cons
+  obtain ⟨ae, as⟩ := hat.fcomp_cons
   refine (use_operand ih hwe hxe ae ?_).append (ok_store as (hexit.cast (by omega) rfl))
   rw [exitD_of_not_unit (isE_not_unit hee)]; exact as.tgt_two
 
-theorem ok_var (y : String) (e : N) (ih : PComp G e) : PComp G (.var y e) := by
+theorem ok_var (y : String) (e : N) (ih : PComp G ls e) : PComp G ls (.var y e) := by
   intro hw kb kc x pc hat hexit _
-  simp only [wf, Bool.and_eq_true, Bool.not_eq_true'] at hw
   have hex : exitD (.var y e) = 0 := by simp [exitD, isUnitNode]
-  have hsz : size (.var y e) = size e + 2 := by simp [size]
-  rw [hsz, hex] at hexit
-  simp only [comp, hts] at hat
-  rw [hsz]
-  exact ok_store_of e y ih hw.2 hw.1.2 hw.1.1 hat hexit
+  rw [hex] at hexit
+  cases hf : isFuncLit e
+  · simp only [wf, hf, Bool.false_eq_true, ↓reduceIte, Bool.and_eq_true, Bool.not_eq_true'] at hw
+    have hsz : size (.var y e) = size e + 2 := by simp [size, hf]
+    rw [hsz] at hexit ⊢
+    simp only [comp, hts, hf, Bool.false_eq_true, ↓reduceIte] at hat
+    exact ok_store_of e y ih hw.2 hw.1.2 hw.1.1 hat hexit
+  · -- `g := func(…) {…}`: `LoadConst fn; Store g`
+    have hsz : size (.var y e) = 2 + 2 := by simp [size, hf]
+    rw [hsz] at hexit ⊢
+    simp only [comp, hts, hf, ↓reduceIte] at hat
+    obtain ⟨ac, as⟩ := hat.two_cons
+    exact (ok_push2 ac rfl rfl as.tgt_two).append (ok_store as (hexit.cast (by omega) (by omega)))
 
-theorem ok_assign (y : String) (op : AssignOp) (e : N) (ih : PComp G e) : PComp G (.assign y op e) := by
+theorem ok_assign (y : String) (op : AssignOp) (e : N) (ih : PComp G ls e) : PComp G ls (.assign y op e) := by
   intro hw kb kc x pc hat hexit _
   simp only [wf, Bool.and_eq_true, Bool.not_eq_true'] at hw
   have hex : exitD (.assign y op e) = 0 := by simp [exitD, isUnitNode]
@@ -560,14 +674,14 @@ theorem ok_assign (y : String) (op : AssignOp) (e : N) (ih : PComp G e) : PComp 
     rw [hsz] at hexit ⊢
     simp only [comp, hts, h1, ↓reduceIte, List.append_assoc] at hat
     obtain ⟨al, hat⟩ := hat.two_cons
-    obtain ⟨ae, hat⟩ := hat.comp_cons
+    obtain ⟨ae, hat⟩ := hat.fcomp_cons
     obtain ⟨ab, as⟩ := hat.two_cons
-    refine (ok_push2 al rfl rfl (ae.tgt_comp hw.2)).append ((use_operand ih hw.2 hw.1.2 ae ?_).append
+    refine (ok_load al (ae.ftgt_comp hw.2)).append ((use_operand ih hw.2 hw.1.2 ae ?_).append
       ((ok_bin ab (i := .binary (assignK op)) rfl rfl ?_).append (ok_store as (hexit.cast (by omega) (by omega)))))
     · rw [exitD_of_not_unit (isE_not_unit hw.1.1)]; exact ab.tgt_two.cast (by omega) (by omega)
     · exact as.tgt_two
 
-theorem ok_postfix (y : String) (inc : Bool) : PComp G (.postfix y inc) := by
+theorem ok_postfix (y : String) (inc : Bool) : PComp G ls (.postfix y inc) := by
   intro _ kb kc x pc hat hexit _
   have hex : exitD (.postfix y inc) = 0 := by simp [exitD, isUnitNode]
   have hsz : size (.postfix y inc) = 2 + (2 + (2 + 2)) := by simp [size]
@@ -577,18 +691,18 @@ theorem ok_postfix (y : String) (inc : Bool) : PComp G (.postfix y inc) := by
   obtain ⟨al, hat⟩ := hat.two_cons
   obtain ⟨ac, hat⟩ := hat.two_cons
   obtain ⟨ab, as⟩ := hat.two_cons
-  exact (ok_push2 al rfl rfl ac.tgt_two).append ((ok_push2 ac rfl rfl (ab.tgt_two.cast rfl (by omega))).append
+  exact (ok_load al ac.tgt_two).append ((ok_push2 ac rfl rfl (ab.tgt_two.cast rfl (by omega))).append
     ((ok_bin ab (i := .binary 1) rfl rfl as.tgt_two).append (ok_store as (hexit.cast (by omega) (by omega)))))
 
 /-- `break` / `continue`: a forward jump to the enclosing loop's target, with the height the
     statement was entered with -/
-theorem ok_break : PComp G .break_ := by
+theorem ok_break : PComp G ls .break_ := by
   intro _ kb kc x pc hat _ hesc
   simp only [comp, hts] at hat
   obtain ⟨t1, _⟩ := hesc rfl
   exact okwin_jf hat (t1.cast (by simp [size]; omega) rfl)
 
-theorem ok_continue : PComp G .continue_ := by
+theorem ok_continue : PComp G ls .continue_ := by
   intro _ kb kc x pc hat _ hesc
   simp only [comp, hts] at hat
   obtain ⟨_, t2⟩ := hesc rfl
@@ -597,7 +711,7 @@ theorem ok_continue : PComp G .continue_ := by
 /-! ### loops: the body's value is popped, the backward jump returns to the height the loop
     was entered with; `break` and `continue` arrive with that same height -/
 
-theorem ok_forcond (c b : N) (ihc : PComp G c) (ihb : PComp G b) : PComp G (.forcond c b) := by
+theorem ok_forcond (c b : N) (ihc : PComp G ls c) (ihb : PComp G ls b) : PComp G ls (.forcond c b) := by
   intro hw kb kc x pc hat hexit _
   simp only [wf, Bool.and_eq_true, Bool.not_eq_true'] at hw
   obtain ⟨⟨⟨⟨hec, hbb⟩, hxc⟩, hwc⟩, hwb⟩ := hw
@@ -606,9 +720,9 @@ theorem ok_forcond (c b : N) (ihc : PComp G c) (ihb : PComp G b) : PComp G (.for
   rw [hsz, hex] at hexit
   simp only [comp, hts, List.append_assoc] at hat
   rw [hsz]
-  obtain ⟨ac, hat⟩ := hat.comp_cons
+  obtain ⟨ac, hat⟩ := hat.fcomp_cons
   obtain ⟨aj, hat⟩ := hat.two_cons
-  obtain ⟨ab, hat⟩ := hat.comp_cons
+  obtain ⟨ab, hat⟩ := hat.fcomp_cons
   obtain ⟨ap, hat⟩ := hat.one_cons
   obtain ⟨ajb, an⟩ := hat.two_cons
   refine (use_operand ihc hwc hxc ac ?_).append
@@ -617,14 +731,14 @@ theorem ok_forcond (c b : N) (ihc : PComp G c) (ihb : PComp G b) : PComp G (.for
         ((okwin_jb ajb (by omega) ?_).append (okwin_fall1 an (a := 0) (b := 0) rfl rfl (by omega) ?_)))))
   · rw [exitD_of_not_unit (isE_not_unit hec)]; exact aj.tgt_two
   · exact hexit.cast (by omega) (by omega)
-  · exact (ab.tgt_comp hwb).cast rfl (by omega)
+  · exact (ab.ftgt_comp hwb).cast rfl (by omega)
   · rw [exitD_of_not_unit (isBlock_not_unit hbb)]; exact ap.tgt_one
   · intro _
     exact ⟨an.tgt_one.cast (by omega) rfl, ajb.tgt_two.cast (by omega) rfl⟩
-  · exact (ac.tgt_comp hwc).cast (by omega) rfl
+  · exact (ac.ftgt_comp hwc).cast (by omega) rfl
   · exact hexit.cast (by omega) (by omega)
 
-theorem ok_forever (b : N) (ihb : PComp G b) : PComp G (.forever b) := by
+theorem ok_forever (b : N) (ihb : PComp G ls b) : PComp G ls (.forever b) := by
   intro hw kb kc x pc hat hexit _
   simp only [wf, Bool.and_eq_true] at hw
   obtain ⟨hbb, hwb⟩ := hw
@@ -633,7 +747,7 @@ theorem ok_forever (b : N) (ihb : PComp G b) : PComp G (.forever b) := by
   rw [hsz, hex] at hexit
   simp only [comp, hts, List.append_assoc] at hat
   rw [hsz]
-  obtain ⟨ab, hat⟩ := hat.comp_cons
+  obtain ⟨ab, hat⟩ := hat.fcomp_cons
   obtain ⟨ap, hat⟩ := hat.one_cons
   obtain ⟨ajb, an⟩ := hat.two_cons
   refine (ihb hwb 3 1 x _ ab ?_ ?_).append ((ok_pop ap ajb.tgt_two).append
@@ -641,11 +755,11 @@ theorem ok_forever (b : N) (ihb : PComp G b) : PComp G (.forever b) := by
   · rw [exitD_of_not_unit (isBlock_not_unit hbb)]; exact ap.tgt_one
   · intro _
     exact ⟨an.tgt_one.cast (by omega) rfl, ajb.tgt_two.cast (by omega) rfl⟩
-  · exact (ab.tgt_comp hwb).cast (by omega) rfl
+  · exact (ab.ftgt_comp hwb).cast (by omega) rfl
   · exact hexit.cast (by omega) (by omega)
 
-theorem ok_for3 (i c p b : N) (ihi : PComp G i) (ihc : PComp G c) (ihp : PComp G p) (ihb : PComp G b) :
-    PComp G (.for3 i c p b) := by
+theorem ok_for3 (i c p b : N) (ihi : PComp G ls i) (ihc : PComp G ls c) (ihp : PComp G ls p) (ihb : PComp G ls b) :
+    PComp G ls (.for3 i c p b) := by
   intro hw kb kc x pc hat hexit _
   simp only [wf, Bool.and_eq_true, Bool.not_eq_true'] at hw
   obtain ⟨⟨⟨⟨⟨⟨⟨⟨⟨⟨hii, hec⟩, hpp⟩, hbb⟩, hxi⟩, hxc⟩, hxp⟩, hwi⟩, hwc⟩, hwp⟩, hwb⟩ := hw
@@ -657,57 +771,55 @@ theorem ok_for3 (i c p b : N) (ihi : PComp G i) (ihc : PComp G c) (ihp : PComp G
       simp [size, hl]; omega
     rw [hsz] at hexit ⊢
     simp only [comp, hts, hl, Bool.false_eq_true, ↓reduceIte, List.append_nil, List.append_assoc, Nat.add_zero] at hat
-    obtain ⟨ai, hat⟩ := hat.comp_cons
-    obtain ⟨ac, hat⟩ := hat.comp_cons
+    obtain ⟨ai, hat⟩ := hat.fcomp_cons
+    obtain ⟨ac, hat⟩ := hat.fcomp_cons
     obtain ⟨aj, hat⟩ := hat.two_cons
-    obtain ⟨ab, hat⟩ := hat.comp_cons
+    obtain ⟨ab, hat⟩ := hat.fcomp_cons
     obtain ⟨ap, hat⟩ := hat.one_cons
-    obtain ⟨app, ajb⟩ := hat.comp_cons
+    obtain ⟨app, ajb⟩ := hat.fcomp_cons
     refine (use_operand ihi hwi hxi ai ?_).append ((use_operand ihc hwc hxc ac ?_).append
       ((okwin_cond aj (i := .pjf (size b + size p + 5)) (d := size b + size p + 5) rfl rfl (by omega) ?_ ?_).append
-        ((ihb hwb (size p + 3) 1 x _ ab ?_ ?_).append ((ok_pop ap (app.tgt_comp hwp)).append
+        ((ihb hwb (size p + 3) 1 x _ ab ?_ ?_).append ((ok_pop ap (app.ftgt_comp hwp)).append
           ((use_operand ihp hwp hxp app ?_).append (okwin_jb ajb (by omega) ?_))))))
-    · rw [exitD_of_unit (isInit_unit hii)]; exact ac.tgt_comp hwc
+    · rw [exitD_of_unit (isInit_unit hii)]; exact ac.ftgt_comp hwc
     · rw [exitD_of_not_unit (isE_not_unit hec)]; exact aj.tgt_two
     · exact hexit.cast (by omega) (by omega)
-    · exact (ab.tgt_comp hwb).cast rfl (by omega)
+    · exact (ab.ftgt_comp hwb).cast rfl (by omega)
     · rw [exitD_of_not_unit (isBlock_not_unit hbb)]; exact ap.tgt_one
     · intro _
-      exact ⟨hexit.cast (by omega) rfl, (app.tgt_comp hwp).cast (by omega) rfl⟩
+      exact ⟨hexit.cast (by omega) rfl, (app.ftgt_comp hwp).cast (by omega) rfl⟩
     · rw [exitD_of_unit hup]; exact ajb.tgt_two
-    · exact (ac.tgt_comp hwc).cast (by omega) rfl
+    · exact (ac.ftgt_comp hwc).cast (by omega) rfl
   · have hup := not_unit_of_leaves hl
     have hsz : size (.for3 i c p b) = size i + (size c + (2 + (size b + (1 + (size p + (1 + 2)))))) := by
       simp [size, hl]; omega
     rw [hsz] at hexit ⊢
     simp only [comp, hts, hl, ↓reduceIte, List.append_assoc] at hat
-    obtain ⟨ai, hat⟩ := hat.comp_cons
-    obtain ⟨ac, hat⟩ := hat.comp_cons
+    obtain ⟨ai, hat⟩ := hat.fcomp_cons
+    obtain ⟨ac, hat⟩ := hat.fcomp_cons
     obtain ⟨aj, hat⟩ := hat.two_cons
-    obtain ⟨ab, hat⟩ := hat.comp_cons
+    obtain ⟨ab, hat⟩ := hat.fcomp_cons
     obtain ⟨ap, hat⟩ := hat.one_cons
-    obtain ⟨app, hat⟩ := hat.comp_cons
+    obtain ⟨app, hat⟩ := hat.fcomp_cons
     obtain ⟨ap2, ajb⟩ := hat.one_cons
     refine (use_operand ihi hwi hxi ai ?_).append ((use_operand ihc hwc hxc ac ?_).append
       ((okwin_cond aj (i := .pjf (size b + (size p + 1) + 5)) (d := size b + (size p + 1) + 5) rfl rfl (by omega) ?_ ?_).append
-        ((ihb hwb (size p + 1 + 3) 1 x _ ab ?_ ?_).append ((ok_pop ap (app.tgt_comp hwp)).append
+        ((ihb hwb (size p + 1 + 3) 1 x _ ab ?_ ?_).append ((ok_pop ap (app.ftgt_comp hwp)).append
           ((use_operand ihp hwp hxp app ?_).append ((ok_pop ap2 ajb.tgt_two).append (okwin_jb ajb (by omega) ?_)))))))
-    · rw [exitD_of_unit (isInit_unit hii)]; exact ac.tgt_comp hwc
+    · rw [exitD_of_unit (isInit_unit hii)]; exact ac.ftgt_comp hwc
     · rw [exitD_of_not_unit (isE_not_unit hec)]; exact aj.tgt_two
     · exact hexit.cast (by omega) (by omega)
-    · exact (ab.tgt_comp hwb).cast rfl (by omega)
+    · exact (ab.ftgt_comp hwb).cast rfl (by omega)
     · rw [exitD_of_not_unit (isBlock_not_unit hbb)]; exact ap.tgt_one
     · intro _
-      exact ⟨hexit.cast (by omega) rfl, (app.tgt_comp hwp).cast (by omega) rfl⟩
+      exact ⟨hexit.cast (by omega) rfl, (app.ftgt_comp hwp).cast (by omega) rfl⟩
     · rw [exitD_of_not_unit hup]; exact ap2.tgt_one
-    · exact (ac.tgt_comp hwc).cast (by omega) rfl
+    · exact (ac.ftgt_comp hwc).cast (by omega) rfl
 
 /-! ### switch: the subject stays below everything (height `x + 1`) until `Swap 1; PopTop` -/
 
-theorem compCmpCase_length (n : N) (k : Nat) : (compCmpCase k n).length = caseCmpLen n := (comp_lengths n).2.2.1 k
-theorem htsCmpCase_length (n : N) (s : Nat) : (htsCmpCase s n).length = caseCmpLen n := (hts_lengths n).2.2.1 s
-
-theorem ok_vals_cons (v vs : N) (ihv : PComp G v) (ihvs : PVals G vs) : PVals G (.cons v vs) := by
+theorem compCmpCase_length (n : N) (k : Nat) : (compCmpCase ls k n).length = caseCmpLen n := (comp_lengths n).2.2.1 k
+theorem ok_vals_cons (v vs : N) (ihv : PComp G ls v) (ihvs : PVals G ls vs) : PVals G ls (.cons v vs) := by
   intro hw k s pc hat hfall hmatch
   simp only [wfVals, Bool.and_eq_true, Bool.not_eq_true'] at hw
   obtain ⟨⟨⟨hev, hxv⟩, hwv⟩, hwvs⟩ := hw
@@ -715,7 +827,7 @@ theorem ok_vals_cons (v vs : N) (ihv : PComp G v) (ihvs : PVals G vs) : PVals G 
   rw [hsz] at hfall hmatch ⊢
   simp only [compVals, htsVals, List.append_assoc] at hat
   obtain ⟨acp, hat⟩ := hat.two_cons
-  obtain ⟨av, hat⟩ := hat.comp_cons
+  obtain ⟨av, hat⟩ := hat.fcomp_cons
   obtain ⟨acm, hat⟩ := hat.two_cons
   obtain ⟨aj, avs⟩ := hat.two_cons
   obtain ⟨okvs, tvs⟩ := ihvs hwvs k s _ avs (hfall.cast (by omega) rfl) (hmatch.cast (by omega) rfl)
@@ -723,32 +835,32 @@ theorem ok_vals_cons (v vs : N) (ihv : PComp G v) (ihvs : PVals G vs) : PVals G 
     ((ok_bin acm (i := .compare 3) rfl rfl ?_).append
       ((okwin_cond aj (i := .pjt (valsLen vs + k + 2)) (d := valsLen vs + k + 2) rfl rfl (by omega) ?_ ?_).append okvs))),
     acp.tgt_two⟩
-  · exact (av.tgt_comp hwv).cast rfl (by omega)
+  · exact (av.ftgt_comp hwv).cast rfl (by omega)
   · rw [exitD_of_not_unit (isE_not_unit hev)]; exact acm.tgt_two.cast rfl (by omega)
   · exact aj.tgt_two
   · exact hmatch.cast (by omega) (by omega)
   · exact tvs.cast (by omega) (by omega)
 
 /-- an empty piece: nothing to check, and the place is what follows it -/
-theorem ok_vals_empty (n : N) (hl : valsLen n = 0) : PVals G n := by
+theorem ok_vals_empty (n : N) (hl : valsLen n = 0) : PVals G ls n := by
   intro _ k s pc _ hfall _
   rw [hl] at hfall ⊢
   exact ⟨OkWin.zero G pc, hfall.cast (by omega) rfl⟩
 
-theorem ok_cmpcase_case (vals body : N) (ihv : PVals G vals) : PCmpCase G (.case_ vals body) := by
+theorem ok_cmpcase_case (vals body : N) (ihv : PVals G ls vals) : PCmpCase G ls (.case_ vals body) := by
   intro hw k a s pc hat hfall hbody
   simp only [wfCase, Bool.and_eq_true, Bool.not_eq_true'] at hw
   obtain ⟨⟨⟨hwv, _⟩, _⟩, hwb⟩ := hw
   simp only [compCmpCase, htsCmpCase, caseCmpLen, compBody, htsBody] at hat hfall hbody ⊢
-  have ab : G.At (pc + valsLen vals + k) (comp 0 0 body) (hts (s + 1) body) := ⟨hbody.1.left, hbody.2.left⟩
-  exact ihv hwv k s pc hat hfall (ab.tgt_comp hwb)
+  have ab : G.At (pc + valsLen vals + k) (comp ls 0 0 body) (hts (s + 1) body) := ⟨hbody.1.left, hbody.2.left⟩
+  exact ihv hwv k s pc hat hfall (ab.ftgt_comp hwb)
 
-theorem ok_cmpcase_empty (n : N) (hl : caseCmpLen n = 0) : PCmpCase G n := by
+theorem ok_cmpcase_empty (n : N) (hl : caseCmpLen n = 0) : PCmpCase G ls n := by
   intro _ k a s pc _ hfall _
   rw [hl] at hfall ⊢
   exact ⟨OkWin.zero G pc, hfall.cast (by omega) rfl⟩
 
-theorem ok_cmp_cons (h t : N) (ihh : PCmpCase G h) (iht : PCmp G t) : PCmp G (.cons h t) := by
+theorem ok_cmp_cons (h t : N) (ihh : PCmpCase G ls h) (iht : PCmp G ls t) : PCmp G ls (.cons h t) := by
   intro hw before d s pc hat hfall hbodies
   simp only [wfCases, Bool.and_eq_true] at hw
   have hsz : cmpLen (.cons h t) = caseCmpLen h + cmpLen t := by simp [cmpLen]
@@ -760,23 +872,23 @@ theorem ok_cmp_cons (h t : N) (ihh : PCmpCase G h) (iht : PCmp G t) : PCmp G (.c
   obtain ⟨okh, th⟩ := ihh hw.1 (cmpLen t + 2 + before) _ s pc ah tt (bh.cast (by omega))
   exact ⟨okh.append okt, th⟩
 
-theorem ok_cmp_empty (n : N) (hl : cmpLen n = 0) : PCmp G n := by
+theorem ok_cmp_empty (n : N) (hl : cmpLen n = 0) : PCmp G ls n := by
   intro _ before d s pc _ hfall _
   rw [hl] at hfall ⊢
   exact ⟨OkWin.zero G pc, hfall.cast (by omega) rfl⟩
 
-theorem ok_body_case (vals body : N) (ihb : PComp G body) : PBody G (.case_ vals body) := by
+theorem ok_body_case (vals body : N) (ihb : PComp G ls body) : PBody G ls (.case_ vals body) := by
   intro hw a s pc hat hexit
   simp only [wfCase, Bool.and_eq_true, Bool.not_eq_true'] at hw
   obtain ⟨⟨⟨_, hbb⟩, hxb⟩, hwb⟩ := hw
   have hsz : caseBodyLen (.case_ vals body) = size body + 2 := by simp [caseBodyLen]
   rw [hsz] at hexit ⊢
   simp only [compBody, htsBody] at hat
-  obtain ⟨ab, aj⟩ := hat.comp_cons
+  obtain ⟨ab, aj⟩ := hat.fcomp_cons
   refine (use_operand ihb hwb hxb ab ?_).append (okwin_jf aj (hexit.cast (by omega) rfl))
   rw [exitD_of_not_unit (isBlock_not_unit hbb)]; exact aj.tgt_two
 
-theorem ok_bodies_cons (h t : N) (ihh : PBody G h) (iht : PBodies G t) : PBodies G (.cons h t) := by
+theorem ok_bodies_cons (h t : N) (ihh : PBody G ls h) (iht : PBodies G ls t) : PBodies G ls (.cons h t) := by
   intro hw d s pc hat hexit
   simp only [wfCases, Bool.and_eq_true] at hw
   have hsz : bodiesLen (.cons h t) = caseBodyLen h + bodiesLen t := by simp [bodiesLen]
@@ -785,7 +897,7 @@ theorem ok_bodies_cons (h t : N) (ihh : PBody G h) (iht : PBodies G t) : PBodies
   obtain ⟨ah, at_⟩ := hat.split (compBody_length h _) (htsBody_length h _)
   exact (ihh hw.1 _ s pc ah (hexit.cast (by omega) rfl)).append (iht hw.2 d s _ at_ (hexit.cast (by omega) rfl))
 
-theorem ok_dfltbody_default (body : N) (ihb : PComp G body) : PDfltBody G (.default_ body) := by
+theorem ok_dfltbody_default (body : N) (ihb : PComp G ls body) : PDfltBody G ls (.default_ body) := by
   intro hw s pc hat hexit
   simp only [wfCase, Bool.and_eq_true, Bool.not_eq_true'] at hw
   obtain ⟨⟨hbb, hxb⟩, hwb⟩ := hw
@@ -793,7 +905,7 @@ theorem ok_dfltbody_default (body : N) (ihb : PComp G body) : PDfltBody G (.defa
   refine use_operand ihb hwb hxb hat ?_
   rw [exitD_of_not_unit (isBlock_not_unit hbb)]; exact hexit
 
-theorem ok_dflt_cons (h t : N) (ihh : PDfltBody G h) (iht : PDflt G t) : PDflt G (.cons h t) := by
+theorem ok_dflt_cons (h t : N) (ihh : PDfltBody G ls h) (iht : PDflt G ls t) : PDflt G ls (.cons h t) := by
   intro hw s pc hat hexit
   simp only [wfCases, Bool.and_eq_true] at hw
   simp only [compDflt, htsDflt, defLen] at hat hexit ⊢
@@ -806,15 +918,15 @@ theorem ok_dflt_cons (h t : N) (ihh : PDfltBody G h) (iht : PDflt G t) : PDflt G
     rename_i body
     simp only [wfCase, Bool.and_eq_true] at hw
     simp only [compDfltBody, htsDfltBody] at hat
-    exact hat.tgt_comp hw.1.2
+    exact hat.ftgt_comp hw.1.2
 
-theorem ok_dflt_nil : PDflt G .nilL := by
+theorem ok_dflt_nil : PDflt G ls .nilL := by
   intro _ s pc hat hexit
   simp only [compDflt, htsDflt, defLen] at hat hexit ⊢
   exact ⟨ok_push1 hat rfl rfl hexit, hat.tgt_one⟩
 
-theorem ok_switch (subj cases : N) (ihs : PComp G subj) (ihc : PCmp G cases) (ihb : PBodies G cases)
-    (ihd : PDflt G cases) : PComp G (.switch subj cases) := by
+theorem ok_switch (subj cases : N) (ihs : PComp G ls subj) (ihc : PCmp G ls cases) (ihb : PBodies G ls cases)
+    (ihd : PDflt G ls cases) : PComp G ls (.switch subj cases) := by
   intro hw kb kc x pc hat hexit _
   simp only [wf, Bool.and_eq_true, Bool.not_eq_true'] at hw
   obtain ⟨⟨⟨⟨hes, hxs⟩, hws⟩, hwc⟩, _⟩ := hw
@@ -824,7 +936,7 @@ theorem ok_switch (subj cases : N) (ihs : PComp G subj) (ihc : PCmp G cases) (ih
   rw [hsz, hex] at hexit
   simp only [comp, hts, List.append_assoc] at hat
   rw [hsz]
-  obtain ⟨as, hat⟩ := hat.comp_cons
+  obtain ⟨as, hat⟩ := hat.fcomp_cons
   obtain ⟨ac, hat⟩ := hat.split (compCmp_length cases _) (htsCmp_length cases _)
   obtain ⟨aj, hat⟩ := hat.two_cons
   obtain ⟨ab, hat⟩ := hat.split (compBodies_length cases _) (htsBodies_length cases _)
@@ -842,20 +954,109 @@ theorem ok_switch (subj cases : N) (ihs : PComp G subj) (ihc : PCmp G cases) (ih
   · exact apop.tgt_one.cast rfl (by omega)
   · exact hexit.cast (by omega) (by omega)
 
+/-! ### what F4 adds: calls, `return`, function declarations -/
+
+/-- call arguments entered at height `s`: the `i`-th runs on top of the earlier ones; after the
+    last one the stack holds all `argCount n` of them; also: the piece (or what follows it) is
+    a legal target at `s` -/
+def PArgs (G : UCtx) (ls : List String) (n : N) : Prop :=
+  wfVals n = true → ∀ s pc, G.At pc (compArgs ls n) (htsArgs s n) →
+    G.Tgt (pc + argsLen n) (s + argCount n) → G.OkWin pc (argsLen n) ∧ G.Tgt pc s
+
+theorem ok_args_cons (a as : N) (iha : PComp G ls a) (ihas : PArgs G ls as) : PArgs G ls (.cons a as) := by
+  intro hw s pc hat hexit
+  simp only [wfVals, Bool.and_eq_true, Bool.not_eq_true'] at hw
+  obtain ⟨⟨⟨hea, hxa⟩, hwa⟩, hwas⟩ := hw
+  have hsz : argsLen (.cons a as) = size a + argsLen as := by simp [argsLen]
+  have hcn : argCount (.cons a as) = argCount as + 1 := by simp [argCount]
+  rw [hsz, hcn] at hexit
+  rw [hsz]
+  simp only [compArgs, htsArgs] at hat
+  obtain ⟨aa, aas⟩ := hat.fcomp_cons
+  obtain ⟨okas, tas⟩ := ihas hwas (s + 1) _ aas (hexit.cast (by omega) (by omega))
+  refine ⟨(use_operand iha hwa hxa aa ?_).append okas, aa.ftgt_comp hwa⟩
+  rw [exitD_of_not_unit (isE_not_unit hea)]; exact tas
+
+/-- no argument: nothing to check, and the place is what follows -/
+theorem ok_args_empty (n : N) (hl : argsLen n = 0) (hc : argCount n = 0) : PArgs G ls n := by
+  intro _ s pc _ hexit
+  rw [hl, hc] at hexit
+  rw [hl]
+  exact ⟨OkWin.zero G pc, hexit.cast (by omega) (by omega)⟩
+
+/-- `f(a1, …, an)`: the callee at `x`, the arguments above it, `Call n` at `x + n + 1` pops
+    the `n` arguments and the callee and pushes ONE result: the expression ends at `x + 1`,
+    whatever happens inside the callee's own frame -/
+theorem ok_call (f args : N) (ihf : PComp G ls f) (iha : PArgs G ls args) : PComp G ls (.call f args) := by
+  intro hw kb kc x pc hat hexit _
+  simp only [wf, Bool.and_eq_true, Bool.not_eq_true'] at hw
+  obtain ⟨⟨⟨hef, hxf⟩, hwf⟩, hwa⟩ := hw
+  have hex : exitD (.call f args) = 1 := by simp [exitD, isUnitNode]
+  have hsz : size (.call f args) = size f + (argsLen args + 2) := by simp [size]; omega
+  rw [hsz, hex] at hexit
+  simp only [comp, hts, List.append_assoc] at hat
+  rw [hsz]
+  obtain ⟨af, hat⟩ := hat.fcomp_cons
+  obtain ⟨aa, ac⟩ := hat.split (compArgs_length args) (htsArgs_length args _)
+  obtain ⟨oka, ta⟩ := iha hwa (x + 1) _ aa (ac.tgt_two.cast rfl rfl)
+  refine (use_operand ihf hwf hxf af ?_).append (oka.append
+    (okwin_fall2 ac (i := .call (argCount args)) (a := argCount args + 1) (b := 1) rfl rfl (by omega) ?_))
+  · rw [exitD_of_not_unit (isE_not_unit hef)]; exact ta
+  · exact hexit.cast (by omega) (by omega)
+
+theorem ret_operand_not_unit {e : N} (h : isE e = true ∨ isNone e = true) : isUnitNode e = false := by
+  rcases h with h | h
+  · exact isE_not_unit h
+  · cases e <;> simp_all [isNone, isUnitNode]
+
+/-- `return e` / bare `return`: the value, then `ReturnValue` at height `x + 1 ≥ 1`.  NO exit
+    target is needed: `ReturnValue` has no successor in this code object.  `x` may be anything:
+    the `x` operands pending below the result (the statement sits inside an operand position, a
+    loop or a `switch`) are dropped with the frame. -/
+theorem ok_return_core (e : N) (ih : PComp G ls e) (hw : wf (.return_ e) = true) {pc x : Nat}
+    (hat : G.At pc (comp ls 0 0 e ++ one .ret) (hts x e ++ r1 (x + 1))) : G.OkWin pc (size e + 1) := by
+  simp only [wf, Bool.and_eq_true, Bool.not_eq_true', Bool.or_eq_true] at hw
+  obtain ⟨⟨hee, hxe⟩, hwe⟩ := hw
+  obtain ⟨ae, ar⟩ := hat.fcomp_cons
+  refine (use_operand ih hwe hxe ae ?_).append (okwin_ret ar (i := .ret) rfl (by omega))
+  rw [exitD_of_not_unit (ret_operand_not_unit hee)]; exact ar.tgt_one
+
+theorem ok_return (e : N) (ih : PComp G ls e) : PComp G ls (.return_ e) := by
+  intro hw kb kc x pc hat _ _
+  have hsz : size (.return_ e) = size e + 1 := by simp [size]
+  simp only [comp, hts] at hat
+  rw [hsz]
+  exact ok_return_core e ih hw hat
+
+/-- `func f(…) {…}` as a statement: `LoadConst fn; Copy 0; Store f; PopTop` -/
+theorem ok_fundecl (e : N) (hf : isFuncLit e = true) : PComp G ls (.expr e) := by
+  intro _ kb kc x pc hat hexit _
+  have hex : exitD (.expr e) = 0 := by simp [exitD, isUnitNode, hf]
+  have hsz : size (.expr e) = 2 + (2 + (2 + 1)) := by simp [size, hf]
+  rw [hsz, hex] at hexit
+  simp only [comp, hts, hf, ↓reduceIte, List.append_assoc] at hat
+  rw [hsz]
+  obtain ⟨ac, hat⟩ := hat.two_cons
+  obtain ⟨acp, hat⟩ := hat.two_cons
+  obtain ⟨as, ap⟩ := hat.two_cons
+  exact (ok_push2 ac rfl rfl acp.tgt_two).append
+    ((okwin_need2 acp (a := 1) (b := 1) rfl rfl (by omega) (as.tgt_two.cast rfl (by omega))).append
+      ((ok_store as (ap.tgt_one.cast (by omega) (by omega))).append (ok_pop ap (hexit.cast (by omega) (by omega)))))
+
 /-! ### the structural induction -/
 
-theorem ok_leaf1 (n : N) (i : FIns) (hc : ∀ kb kc, comp kb kc n = one i) (hh : ∀ x, hts x n = r1 x)
+theorem ok_leaf1 (n : N) (i : FIns) (hc : ∀ kb kc, comp ls kb kc n = one i) (hh : ∀ x, hts x n = r1 x)
     (hk : (insOf i).kind = .fall 0 1) (hs : (insOf i).size = 1) (hsz : size n = 1) (hu : isUnitNode n = false) :
-    PComp G n := by
+    PComp G ls n := by
   intro _ kb kc x pc hat hexit _
   rw [hc, hh] at hat
   rw [hsz, exitD_of_not_unit hu] at hexit
   rw [hsz]
   exact ok_push1 hat hk hs hexit
 
-theorem ok_leaf2 (n : N) (i : FIns) (hc : ∀ kb kc, comp kb kc n = two i) (hh : ∀ x, hts x n = r2 x)
+theorem ok_leaf2 (n : N) (i : FIns) (hc : ∀ kb kc, comp ls kb kc n = two i) (hh : ∀ x, hts x n = r2 x)
     (hk : (insOf i).kind = .fall 0 1) (hs : (insOf i).size = 2) (hsz : size n = 2) (hu : isUnitNode n = false) :
-    PComp G n := by
+    PComp G ls n := by
   intro _ kb kc x pc hat hexit _
   rw [hc, hh] at hat
   rw [hsz, exitD_of_not_unit hu] at hexit
@@ -863,9 +1064,9 @@ theorem ok_leaf2 (n : N) (i : FIns) (hc : ∀ kb kc, comp kb kc n = two i) (hh :
   exact ok_push2 hat hk hs hexit
 
 /-- `block`, `prog`, `expr`: the code of the wrapped node -/
-theorem ok_wrap (n s : N) (ih : PComp G s) (hc : ∀ kb kc, comp kb kc n = comp kb kc s) (hh : ∀ x, hts x n = hts x s)
+theorem ok_wrap (n s : N) (ih : PComp G ls s) (hc : ∀ kb kc, comp ls kb kc n = comp ls kb kc s) (hh : ∀ x, hts x n = hts x s)
     (hsz : size n = size s) (hw : wf n = true → wf s = true ∧ isUnitNode s = false) (hu : isUnitNode n = false)
-    (he : escapes n = escapes s) : PComp G n := by
+    (he : escapes n = escapes s) : PComp G ls n := by
   intro hwn kb kc x pc hat hexit hesc
   rw [hc, hh] at hat
   rw [hsz, exitD_of_not_unit hu] at hexit
@@ -878,34 +1079,35 @@ theorem ok_wrap (n s : N) (ih : PComp G s) (hc : ∀ kb kc, comp kb kc n = comp 
 macro "ok_rest" : tactic =>
   `(tactic| (refine ⟨?_, by intro hw; simp [wfVals] at hw, by intro hw; simp [wfCase] at hw,
       by intro hw; simp [wfCases] at hw, by intro hw; simp [wfCase] at hw, by intro hw; simp [wfCases] at hw,
-      by intro hw; simp [wfCase] at hw, by intro hw; simp [wfCases] at hw⟩))
+      by intro hw; simp [wfCase] at hw, by intro hw; simp [wfCases] at hw, by intro hw; simp [wfVals] at hw⟩))
 
 /-- every piece of the code of every node of the fragment passes `check`'s per-offset test,
     wherever it sits, provided its exits are legal targets with the right heights -/
-theorem ok_all (G : FCtx) (n : N) :
-    PComp G n ∧ PVals G n ∧ PCmpCase G n ∧ PCmp G n ∧ PBody G n ∧ PBodies G n ∧ PDfltBody G n ∧ PDflt G n := by
+theorem ok_all (G : UCtx) (n : N) :
+    PComp G ls n ∧ PVals G ls n ∧ PCmpCase G ls n ∧ PCmp G ls n ∧ PBody G ls n ∧ PBodies G ls n ∧ PDfltBody G ls n ∧
+      PDflt G ls n ∧ PArgs G ls n := by
   induction n with
   | cons h t ihh iht =>
     exact ⟨ok_cons h t ihh.1 iht.1, ok_vals_cons h t ihh.1 iht.2.1, by intro hw; simp [wfCase] at hw,
       ok_cmp_cons h t ihh.2.2.1 iht.2.2.2.1, by intro hw; simp [wfCase] at hw,
       ok_bodies_cons h t ihh.2.2.2.2.1 iht.2.2.2.2.2.1, by intro hw; simp [wfCase] at hw,
-      ok_dflt_cons h t ihh.2.2.2.2.2.2.1 iht.2.2.2.2.2.2.2⟩
+      ok_dflt_cons h t ihh.2.2.2.2.2.2.1 iht.2.2.2.2.2.2.2.1, ok_args_cons h t ihh.1 iht.2.2.2.2.2.2.2.2⟩
   | nilL =>
     refine ⟨ok_leaf1 _ .nil_ (fun _ _ => rfl) (fun _ => rfl) rfl rfl rfl rfl, ok_vals_empty _ rfl,
       by intro hw; simp [wfCase] at hw, ok_cmp_empty _ rfl, by intro hw; simp [wfCase] at hw, ?_,
-      by intro hw; simp [wfCase] at hw, ok_dflt_nil⟩
+      by intro hw; simp [wfCase] at hw, ok_dflt_nil, ok_args_empty _ rfl rfl⟩
     intro _ d s pc _ _
     exact OkWin.zero G pc
   | case_ vals body ihv ihb =>
     refine ⟨by intro hw; simp [wf] at hw, by intro hw; simp [wfVals] at hw, ok_cmpcase_case vals body ihv.2.1,
       by intro hw; simp [wfCases] at hw, ok_body_case vals body ihb.1, by intro hw; simp [wfCases] at hw, ?_,
-      by intro hw; simp [wfCases] at hw⟩
+      by intro hw; simp [wfCases] at hw, by intro hw; simp [wfVals] at hw⟩
     intro _ s pc _ _
     exact OkWin.zero G pc
   | default_ body ihb =>
     refine ⟨by intro hw; simp [wf] at hw, by intro hw; simp [wfVals] at hw, ok_cmpcase_empty _ rfl,
       by intro hw; simp [wfCases] at hw, ?_, by intro hw; simp [wfCases] at hw, ok_dfltbody_default body ihb.1,
-      by intro hw; simp [wfCases] at hw⟩
+      by intro hw; simp [wfCases] at hw, by intro hw; simp [wfVals] at hw⟩
     intro _ a s pc _ _
     exact OkWin.zero G pc
   | nilLit => ok_rest; exact ok_leaf1 _ .nil_ (fun _ _ => rfl) (fun _ => rfl) rfl rfl rfl rfl
@@ -917,7 +1119,7 @@ theorem ok_all (G : FCtx) (n : N) :
     · exact ok_leaf1 _ .true_ (fun _ _ => rfl) (fun _ => rfl) rfl rfl rfl rfl
   | int i => ok_rest; exact ok_leaf2 _ (.constInt i) (fun _ _ => rfl) (fun _ => rfl) rfl rfl rfl rfl
   | str s => ok_rest; exact ok_leaf2 _ (.constStr s) (fun _ _ => rfl) (fun _ => rfl) rfl rfl rfl rfl
-  | id y => ok_rest; exact ok_leaf2 _ (.loadG y) (fun _ _ => rfl) (fun _ => rfl) rfl rfl rfl rfl
+  | id y => ok_rest; exact ok_leaf2 _ (loadV ls y) (fun _ _ => rfl) (fun _ => rfl) (loadV_kind ls y).1 (loadV_kind ls y).2 rfl rfl
   | «infix» op l r ihl ihr =>
     ok_rest
     by_cases hand : op = .and
@@ -991,11 +1193,14 @@ theorem ok_all (G : FCtx) (n : N) :
     exact ⟨hw.2, isL_not_unit hw.1.1⟩
   | expr e ih =>
     ok_rest
-    refine ok_wrap _ e ih.1 (fun _ _ => by simp only [comp]) (fun _ => by simp only [hts]) (by simp [size]) ?_ rfl
-      (by simp [escapes])
-    intro hw
-    simp only [wf, Bool.and_eq_true] at hw
-    exact ⟨hw.2, isE_not_unit hw.1⟩
+    cases hf : isFuncLit e
+    · refine ok_wrap _ e ih.1 (fun _ _ => by simp only [comp, hf, Bool.false_eq_true, ↓reduceIte])
+        (fun _ => by simp only [hts, hf, Bool.false_eq_true, ↓reduceIte]) (by simp [size, hf]) ?_
+        (by simp [isUnitNode, hf]) (by simp [escapes])
+      intro hw
+      simp only [wf, hf, Bool.false_eq_true, ↓reduceIte, Bool.and_eq_true] at hw
+      exact ⟨hw.2, isE_not_unit hw.1⟩
+    · exact ok_fundecl e hf
   | var y e ih => ok_rest; exact ok_var y e ih.1
   | assign y op e ih => ok_rest; exact ok_assign y op e ih.1
   | «postfix» y inc => ok_rest; exact ok_postfix y inc
@@ -1004,10 +1209,94 @@ theorem ok_all (G : FCtx) (n : N) :
   | forcond c b ihc ihb => ok_rest; exact ok_forcond c b ihc.1 ihb.1
   | forever b ihb => ok_rest; exact ok_forever b ihb.1
   | for3 i c p b ihi ihc ihp ihb => ok_rest; exact ok_for3 i c p b ihi.1 ihc.1 ihp.1 ihb.1
-  | switch subj cases ihs ihc => ok_rest; exact ok_switch subj cases ihs.1 ihc.2.2.2.1 ihc.2.2.2.2.2.1 ihc.2.2.2.2.2.2.2
+  | switch subj cases ihs ihc => ok_rest; exact ok_switch subj cases ihs.1 ihc.2.2.2.1 ihc.2.2.2.2.2.1 ihc.2.2.2.2.2.2.2.1
+  | call f args ihf iha => ok_rest; exact ok_call f args ihf.1 iha.2.2.2.2.2.2.2.2
+  | return_ e ih => ok_rest; exact ok_return e ih.1
   | _ => ok_rest; intro hw; simp [wf] at hw
 
-end Ctx
+
+/-! ### a whole function body: `compFnStmts` (the statements up to the first top-level `return`,
+    the implicit `ReturnValue`) entered at height 0; every path ends in `ReturnValue` -/
+
+theorem ok_fnStmts (G : UCtx) (ls : List String) (n : N) : isL n = true → wf n = true → escapes n = false →
+    ∀ pc, G.At pc (compFnStmts ls n) (htsFn n) → G.OkWin pc (compFnStmts ls n).length := by
+  induction n with
+  | cons h t _ iht =>
+    intro _ hw hx pc hat
+    simp only [wf, Bool.and_eq_true] at hw
+    obtain ⟨⟨⟨hsh, hlt⟩, hwh⟩, hwt⟩ := hw
+    simp only [escapes, Bool.or_eq_false_iff] at hx
+    obtain ⟨hxh, hxt⟩ := hx
+    have ihh : PComp G ls h := (ok_all G h).1
+    have noesc : ∀ q : Nat, escapes h = true → G.Tgt (q + 0) 0 ∧ G.Tgt (q + 0) 0 := by
+      intro q he; rw [hxh] at he; cases he
+    cases hr : isReturn h
+    · cases hn : isNilL t <;> cases hl : leaves h
+      · -- a unit statement, more follow
+        have hu := unit_of_isS hsh hl
+        simp only [compFnStmts, htsFn, hr, hn, hl, Bool.false_eq_true, ↓reduceIte, List.append_nil, List.append_assoc]
+          at hat ⊢
+        obtain ⟨ap, hat⟩ := hat.fpre_cons
+        obtain ⟨ah, at_⟩ := hat.fcomp_cons
+        have hlen : (pre ls h ++ (comp ls 0 0 h ++ compFnStmts ls t)).length
+            = preLen h + (size h + (compFnStmts ls t).length) := by
+          simp only [List.length_append, pre_length, comp_length]
+        rw [hlen]
+        refine (ok_pre h ap (ah.ftgt_comp hwh)).append ((ihh hwh 0 0 0 _ ah ?_ (noesc _)).append
+          (iht hlt hwt hxt _ at_))
+        rw [exitD_of_unit hu]; exact (at_.ftgt_fn hlt hwt).cast (by omega) rfl
+      · -- an expression statement, more follow: its value is popped
+        have hu := not_unit_of_leaves hl
+        simp only [compFnStmts, htsFn, hr, hn, hl, Bool.false_eq_true, ↓reduceIte, List.append_assoc] at hat ⊢
+        obtain ⟨ap, hat⟩ := hat.fpre_cons
+        obtain ⟨ah, hat⟩ := hat.fcomp_cons
+        obtain ⟨apop, at_⟩ := hat.one_cons
+        have hlen : (pre ls h ++ (comp ls 0 0 h ++ (one .popTop ++ compFnStmts ls t))).length
+            = preLen h + (size h + (1 + (compFnStmts ls t).length)) := by
+          simp only [List.length_append, pre_length, comp_length]; rfl
+        rw [hlen]
+        refine (ok_pre h ap (ah.ftgt_comp hwh)).append ((ihh hwh 0 0 0 _ ah ?_ (noesc _)).append
+          ((ok_pop apop (at_.ftgt_fn hlt hwt)).append (iht hlt hwt hxt _ at_)))
+        rw [exitD_of_not_unit hu]; exact apop.tgt_one
+      · -- the last statement is no expression: `Nil; ReturnValue`
+        have hu := unit_of_isS hsh hl
+        simp only [compFnStmts, htsFn, hr, hn, hl, Bool.false_eq_true, ↓reduceIte, List.append_assoc] at hat ⊢
+        obtain ⟨ap, hat⟩ := hat.fpre_cons
+        obtain ⟨ah, hat⟩ := hat.fcomp_cons
+        obtain ⟨an, ar⟩ := hat.one_cons
+        have hlen : (pre ls h ++ (comp ls 0 0 h ++ (one .nil_ ++ one .ret))).length = preLen h + (size h + (1 + 1)) := by
+          simp only [List.length_append, pre_length, comp_length]; rfl
+        rw [hlen]
+        refine (ok_pre h ap (ah.ftgt_comp hwh)).append ((ihh hwh 0 0 0 _ ah ?_ (noesc _)).append
+          ((ok_push1 an rfl rfl ar.tgt_one).append (okwin_ret ar (i := .ret) rfl (by omega))))
+        rw [exitD_of_unit hu]; exact an.tgt_one
+      · -- the last statement is an expression: its value is returned
+        have hu := not_unit_of_leaves hl
+        simp only [compFnStmts, htsFn, hr, hn, hl, Bool.false_eq_true, ↓reduceIte, List.append_assoc] at hat ⊢
+        obtain ⟨ap, hat⟩ := hat.fpre_cons
+        obtain ⟨ah, ar⟩ := hat.fcomp_cons
+        have hlen : (pre ls h ++ (comp ls 0 0 h ++ one .ret)).length = preLen h + (size h + 1) := by
+          simp only [List.length_append, pre_length, comp_length]; rfl
+        rw [hlen]
+        refine (ok_pre h ap (ah.ftgt_comp hwh)).append ((ihh hwh 0 0 0 _ ah ?_ (noesc _)).append
+          (okwin_ret ar (i := .ret) rfl (by omega)))
+        rw [exitD_of_not_unit hu]; exact ar.tgt_one
+    · -- the first top-level `return`: the rest of the body is not compiled
+      cases h with
+      | return_ e =>
+        simp only [compFnStmts, htsFn, isReturn, ↓reduceIte] at hat ⊢
+        rw [comp_length]
+        have hsz : size (.return_ e) = size e + 1 := by simp [size]
+        simp only [comp, hts] at hat
+        rw [hsz]
+        exact ok_return_core e (ok_all G e).1 hwh hat
+      | _ => simp [isReturn] at hr
+  | nilL =>
+    intro _ _ _ pc hat
+    simp only [compFnStmts, htsFn] at hat ⊢
+    obtain ⟨an, ar⟩ := hat.one_cons
+    exact (ok_push1 an rfl rfl ar.tgt_one).append (okwin_ret ar (i := .ret) rfl (by omega))
+  | _ => intro hl; simp [isL] at hl
 
 /-! ### the heights stay within the syntactic nesting depth -/
 
@@ -1030,18 +1319,25 @@ theorem Bd_preH (x : Nat) (h : N) (k : Nat) (hk : x + 1 ≤ k) : Bd (preH x h) k
   | none => simp [Bd]
   | some y => simp only [Bd_append, Bd_r1, Bd_r2]; omega
 
-/-- the eight height lists of a node, bounded by its nesting depth -/
+theorem argCount_le_depthArgs (n : N) : argCount n ≤ depthArgs n := by
+  induction n with
+  | cons a as _ ih => simp only [argCount, depthArgs]; omega
+  | _ => simp [argCount]
+
+/-- the nine height lists of a node, bounded by its nesting depth -/
 def DepthOK (n : N) : Prop :=
   (∀ x, Bd (hts x n) (x + depth n)) ∧ (∀ s, Bd (htsVals s n) (s + depth n)) ∧
   (∀ s, Bd (htsCmpCase s n) (s + depth n)) ∧ (∀ s, Bd (htsCmp s n) (s + depth n)) ∧
   (∀ s, Bd (htsBody s n) (s + depth n + 1)) ∧ (∀ s, Bd (htsBodies s n) (s + depth n)) ∧
-  (∀ s, Bd (htsDfltBody s n) (s + depth n)) ∧ (∀ s, Bd (htsDflt s n) (s + depth n))
+  (∀ s, Bd (htsDfltBody s n) (s + depth n)) ∧ (∀ s, Bd (htsDflt s n) (s + depth n)) ∧
+  (∀ s, Bd (htsArgs s n) (s + depthArgs n))
 
-/-- the seven list-shaped components on a node that is neither a list nor a case -/
+/-- the eight list-shaped components on a node that is neither a list nor a case -/
 macro "bd_rest" : tactic =>
   `(tactic| (refine ⟨?_, by intro s; simp [htsVals, Bd], by intro s; simp [htsCmpCase, Bd],
       by intro s; simp [htsCmp, Bd], by intro s; simp [htsBody, Bd], by intro s; simp [htsBodies, Bd],
-      by intro s; simp [htsDfltBody, Bd], by intro s; simp only [htsDflt, Bd_r1]; omega⟩))
+      by intro s; simp [htsDfltBody, Bd], by intro s; simp only [htsDflt, Bd_r1]; omega,
+      by intro s; simp [htsArgs, Bd]⟩))
 
 /-- after unfolding: conjunctions of bounds, each an arithmetic fact or a sub-node's bound -/
 macro "bd_split" : tactic =>
@@ -1050,9 +1346,9 @@ macro "bd_split" : tactic =>
 theorem hts_le_depth (n : N) : DepthOK n := by
   induction n with
   | cons h t ihh iht =>
-    obtain ⟨h1, _, h3, _, h5, _, h7, _⟩ := ihh
-    obtain ⟨t1, t2, _, t4, _, t6, _, t8⟩ := iht
-    refine ⟨?_, ?_, ?_, ?_, ?_, ?_, ?_, ?_⟩
+    obtain ⟨h1, _, h3, _, h5, _, h7, _, _⟩ := ihh
+    obtain ⟨t1, t2, _, t4, _, t6, _, t8, t9⟩ := iht
+    refine ⟨?_, ?_, ?_, ?_, ?_, ?_, ?_, ?_, ?_⟩
     · intro x
       simp only [hts, depth, Bd_append]
       refine ⟨Bd_preH x h _ (by omega), ?_⟩
@@ -1075,9 +1371,13 @@ theorem hts_le_depth (n : N) : DepthOK n := by
       split
       · exact (h7 _).mono (by omega)
       · exact (t8 _).mono (by omega)
+    · intro s
+      simp only [htsArgs, depthArgs]
+      bd_split <;> first | exact (h1 _).mono (by omega) | exact (t9 _).mono (by omega)
   | case_ vals body ihv ihb =>
     refine ⟨by intro x; simp [hts, Bd], by intro s; simp [htsVals, Bd], ?_, by intro s; simp [htsCmp, Bd], ?_,
-      by intro s; simp [htsBodies, Bd], by intro s; simp [htsDfltBody, Bd], by intro s; simp only [htsDflt, Bd_r1]; omega⟩
+      by intro s; simp [htsBodies, Bd], by intro s; simp [htsDfltBody, Bd], by intro s; simp only [htsDflt, Bd_r1]; omega,
+      by intro s; simp [htsArgs, Bd]⟩
     · intro s; simp only [htsCmpCase, depth]; exact (ihv.2.1 _).mono (by omega)
     · intro s
       simp only [htsBody, depth]
@@ -1085,7 +1385,7 @@ theorem hts_le_depth (n : N) : DepthOK n := by
   | default_ body ihb =>
     refine ⟨by intro x; simp [hts, Bd], by intro s; simp [htsVals, Bd], by intro s; simp [htsCmpCase, Bd],
       by intro s; simp [htsCmp, Bd], by intro s; simp [htsBody, Bd], by intro s; simp [htsBodies, Bd], ?_,
-      by intro s; simp only [htsDflt, Bd_r1]; omega⟩
+      by intro s; simp only [htsDflt, Bd_r1]; omega, by intro s; simp [htsArgs, Bd]⟩
     intro s; simp only [htsDfltBody, depth]; exact ihb.1 _
   | «infix» op l r ihl ihr =>
     bd_rest
@@ -1104,8 +1404,19 @@ theorem hts_le_depth (n : N) : DepthOK n := by
     bd_split <;> first | omega | exact (ihc.1 _).mono (by omega) | exact (iha.1 _).mono (by omega) | exact (ihb.1 _).mono (by omega)
   | block s ih => bd_rest; intro x; simp only [hts, depth]; exact ih.1 _
   | prog s ih => bd_rest; intro x; simp only [hts, depth]; exact ih.1 _
-  | expr s ih => bd_rest; intro x; simp only [hts, depth]; exact ih.1 _
-  | var y e ih => bd_rest; intro x; simp only [hts, depth]; bd_split <;> first | omega | exact (ih.1 _).mono (by omega)
+  | expr s ih =>
+    bd_rest; intro x; simp only [hts, depth]
+    split
+    · bd_split <;> omega
+    · exact ih.1 _
+  | var y e ih =>
+    bd_rest; intro x; simp only [hts, depth]
+    split <;> bd_split <;> first | omega | exact (ih.1 _).mono (by omega)
+  | call f args ihf iha =>
+    bd_rest; intro x; simp only [hts, depth]
+    have := argCount_le_depthArgs args
+    bd_split <;> first | omega | exact (ihf.1 _).mono (by omega) | exact (iha.2.2.2.2.2.2.2.2 _).mono (by omega)
+  | return_ e ih => bd_rest; intro x; simp only [hts, depth]; bd_split <;> first | omega | exact (ih.1 _).mono (by omega)
   | assign y op e ih =>
     bd_rest; intro x; simp only [hts, depth]
     split <;> bd_split <;> first | omega | exact (ih.1 _).mono (by omega)
@@ -1123,96 +1434,82 @@ theorem hts_le_depth (n : N) : DepthOK n := by
   | switch subj cases ihs ihc =>
     bd_rest; intro x; simp only [hts, depth]
     bd_split <;>
-      (first | omega | exact (ihs.1 _).mono (by omega) | exact (ihc.2.2.2.1 _).mono (by omega) | exact (ihc.2.2.2.2.2.1 _).mono (by omega) | exact (ihc.2.2.2.2.2.2.2 _).mono (by omega))
+      (first | omega | exact (ihs.1 _).mono (by omega) | exact (ihc.2.2.2.1 _).mono (by omega) | exact (ihc.2.2.2.2.2.1 _).mono (by omega) | exact (ihc.2.2.2.2.2.2.2.1 _).mono (by omega))
   | _ => bd_rest; intro x; simp only [hts, depth, Bd_r1, Bd_r2, Bd_nil] <;> omega
 
-/-- a program whose syntactic nesting depth is within the frame's limit fits it -/
-theorem fits_of_depth (p : N) (h : depth p ≤ maxHeight) : fits p = true := by
-  simp only [fits, List.all_eq_true, decide_eq_true_eq]
-  intro x hx
-  have := (hts_le_depth p).1 0 x hx
-  omega
+/-- a whole function body stays within its nesting depth -/
+theorem htsFn_le_depth (n : N) : Bd (htsFn n) (depthFn n) := by
+  induction n with
+  | cons h t _ iht =>
+    have hh := (hts_le_depth h).1 0
+    simp only [htsFn, depthFn]
+    split
+    · exact hh.mono (by omega)
+    · split
+      · simp only [Bd_append]
+        refine ⟨⟨Bd_preH 0 h _ (by omega), hh.mono (by omega)⟩, ?_⟩
+        split <;> bd_split <;> omega
+      · simp only [Bd_append]
+        refine ⟨⟨⟨Bd_preH 0 h _ (by omega), hh.mono (by omega)⟩, ?_⟩, iht.mono (by omega)⟩
+        split <;> bd_split <;> omega
+  | _ => simp only [htsFn, depthFn]; bd_split <;> omega
 
-/-! ### a whole program -/
-
-/-- the context of a whole program: its code, the heights of all its slots, one value at the end -/
-def progCtx (p : N) (hfit : fits p = true) : FCtx where
-  code := compF p
-  H := hts 0 p
-  hend := some 1
-  isMain := true
-  hlen := by rw [hts_length, compF, comp_length]
-  hmax := by
+theorem le_foldl_max (l : List Nat) (a : Nat) : a ≤ l.foldl max a ∧ ∀ x, x ∈ l → x ≤ l.foldl max a := by
+  induction l generalizing a with
+  | nil => exact ⟨Nat.le_refl _, fun x hx => by cases hx⟩
+  | cons y ys ih =>
+    obtain ⟨h1, h2⟩ := ih (max a y)
+    refine ⟨Nat.le_trans (Nat.le_max_left a y) h1, ?_⟩
     intro x hx
-    have := List.all_eq_true.mp hfit x hx
-    simpa using this
-  hendmax := by intro x h; cases h; simp [maxHeight]
+    rcases List.mem_cons.mp hx with hx | hx
+    · subst hx; exact Nat.le_trans (Nat.le_max_right a x) h1
+    · exact h2 x hx
 
-/-! ### erased operands -/
+/-- a program whose syntactic nesting depth — of the main code and of every function body —
+    is within the frame's limit fits it -/
+theorem fitsFun_of_depth (p : N) (h : depthProg p ≤ maxHeight) : fitsFun p = true := by
+  obtain ⟨h1, h2⟩ := le_foldl_max ((funsOf p).map fun d => depthFn d.body) (depth p)
+  simp only [fitsFun, Bool.and_eq_true, List.all_eq_true, decide_eq_true_eq]
+  refine ⟨?_, ?_⟩
+  · intro x hx
+    have := (hts_le_depth p).1 0 x hx
+    unfold depthProg at h
+    omega
+  · intro d hd x hx
+    have h3 := htsFn_le_depth d.body x hx
+    have h4 := h2 (depthFn d.body) (List.mem_map.mpr ⟨d, hd, rfl⟩)
+    unfold depthProg at h
+    omega
 
-theorem eraseIns_kind (i : Ins) : (eraseIns i).kind = i.kind ∧ (eraseIns i).size = i.size := by
-  obtain ⟨op, a, b⟩ := i
-  cases op <;> exact ⟨rfl, rfl⟩
 
-theorem succs_eraseIns (i : Ins) (pc h : Nat) : succs (eraseIns i) pc h = succs i pc h := by
-  simp only [succs, (eraseIns_kind i).1, (eraseIns_kind i).2]
-
-theorem eraseIdx_size (c : Code) : (eraseIdx c).size = c.size := by
-  simp [eraseIdx, Code.size]
-
-theorem eraseIdx_at (c : Code) (pc : Nat) : (eraseIdx c).at pc = (c.at pc).map eraseIns := by
-  simp only [eraseIdx, Code.at, Array.getElem?_map]
-  cases c.slots[pc]? with
-  | none => rfl
-  | some s => cases s <;> rfl
-
-theorem okTarget_eraseIdx (c : Code) (cert : Cert) (p h : Nat) :
-    okTarget (eraseIdx c) cert p h = okTarget c cert p h := by
-  simp only [okTarget, eraseIdx_size, eraseIdx_at, Option.isSome_map]
-
-theorem checkAt_eraseIdx (c : Code) (cert : Cert) (pc : Nat) :
-    checkAt (eraseIdx c) cert pc = checkAt c cert pc := by
-  simp only [checkAt, eraseIdx_at]
-  cases cert[pc]? with
-  | none => rfl
-  | some x =>
-    cases x with
-    | none => rfl
-    | some h =>
-      cases c.at pc with
-      | none => rfl
-      | some i =>
-        simp only [Option.map_some, succs_eraseIns]
-        cases succs i pc h with
-        | none => rfl
-        | some l => simp only [okTarget_eraseIdx]
-
-/-! ### deeply nested operands -/
+/-! ### deeply nested operands (the witness of `fun_compile_balanced_needs_fits`; `deep`,
+    `deepProg` of `FragCert.lean` read as a program of the function fragment) -/
 
 theorem deep_isE (k : Nat) : isE (deep k) = true := by cases k <;> rfl
+theorem deep_not_func (k : Nat) : isFuncLit (deep k) = false := by cases k <;> rfl
 
-theorem deep_facts (k : Nat) : wf (deep k) = true ∧ escapes (deep k) = false ∧
-    (∀ env, scopeOK env (deep k) = true) ∧ decls (deep k) = [] := by
+theorem deep_facts (k : Nat) : wf (deep k) = true ∧ escapes (deep k) = false := by
   induction k with
-  | zero => simp [deep, wf, escapes, scopeOK, decls]
+  | zero => simp [deep, wf, escapes]
   | succ k ih =>
-    obtain ⟨h1, h3, h4, h5⟩ := ih
+    obtain ⟨h1, h2⟩ := ih
     have hi : isE (.int 1) = true := rfl
-    simp [deep, wf, escapes, scopeOK, decls, opOK, hi, deep_isE, h1, h3, h4, h5]
+    simp [deep, wf, escapes, opOK, hi, deep_isE, h1, h2]
 
-theorem deepProg_inFrag (k : Nat) : inFrag (deepProg k) = true := by
-  obtain ⟨h1, h3, h4, h5⟩ := deep_facts k
-  simp [deepProg, inFrag, wf, isL, isS, leaves, isUnitNode, escapes, wellScoped, scopeOK, decls, nodup, deep_isE, h1,
-    h3, h4, h5]
+theorem deepProg_inFunShape (k : Nat) : inFunShape (deepProg k) = true := by
+  obtain ⟨h1, h2⟩ := deep_facts k
+  have hd : declOfStmt (.expr (deep k)) = none := by cases k <;> rfl
+  simp [deepProg, inFunShape, wf, isL, isS, leaves, isUnitNode, escapes, bodiesWF, funsOf, N.toList, hd,
+    deep_not_func, deep_isE, h1, h2]
 
 /-- running the code of `deep k` from height `h` loads its `k + 1` constants one after the
     other: the stack then holds all of them at once -/
-theorem deep_reach (code : Frag.Code) : ∀ (k pc h : Nat), Win code pc (comp 0 0 (deep k)) →
-    Reach (toC04 code) ⟨pc, h⟩ → Reach (toC04 code) ⟨pc + 2 * (k + 1), h + (k + 1)⟩ := by
-  have hstep : ∀ pc h rest, Win code pc (two (.constInt 1) ++ rest) → Reach (toC04 code) ⟨pc, h⟩ →
-      Reach (toC04 code) ⟨pc + 2, h + 1⟩ := by
+theorem deep_reach (m : Bool) (code : Fun.Code) : ∀ (k pc h : Nat), Win code pc (comp ls 0 0 (deep k)) →
+    Reach (toC04 m code) ⟨pc, h⟩ → Reach (toC04 m code) ⟨pc + 2 * (k + 1), h + (k + 1)⟩ := by
+  have hstep : ∀ pc h rest, Win code pc (two (.constInt 1) ++ rest) → Reach (toC04 m code) ⟨pc, h⟩ →
+      Reach (toC04 m code) ⟨pc + 2, h + 1⟩ := by
     intro pc h rest hw hr
-    have hat : (toC04 code).at pc = some ⟨.loadConst, 0, 0⟩ := by
+    have hat : (toC04 m code).at pc = some ⟨.loadConst, 0, 0⟩ := by
       have := Win.head hw.left
       simp [toC04, Code.at, this, insOf]
     exact .step hr (.mk (l := [(pc + 2, h + 1)]) hat (by simp [succs, Ins.kind, Ins.size, Op.operands]) (by simp))
@@ -1226,7 +1523,7 @@ theorem deep_reach (code : Frag.Code) : ∀ (k pc h : Nat), Win code pc (comp 0 
     intro pc h hw hr
     simp only [deep, comp, reduceCtorEq, ↓reduceIte, List.append_assoc] at hw
     have r1 := hstep pc h _ hw hr
-    have hw2 : Win code (pc + 2) (comp 0 0 (deep k)) := by
+    have hw2 : Win code (pc + 2) (comp ls 0 0 (deep k)) := by
       have := hw.right.left
       simpa using this
     have r2 := ih (pc + 2) (h + 1) hw2 r1
@@ -1235,4 +1532,32 @@ theorem deep_reach (code : Frag.Code) : ∀ (k pc h : Nat), Win code pc (comp 0 
     rw [e1, e2] at r2
     exact r2
 
-end Risor.C04
+/-! ### the code objects of a whole program -/
+
+/-- the main code object: its slots, the heights of all of them, one value at the end -/
+def mainCtx (p : N) (hfit : (hts 0 p).all (· ≤ maxHeight) = true) : UCtx where
+  code := (compFun p).main
+  H := hts 0 p
+  hend := some 1
+  isMain := true
+  hlen := by rw [hts_length]; simp only [compFun, comp_length]
+  hmax := by
+    intro x hx
+    have := List.all_eq_true.mp hfit x hx
+    simpa using this
+  hendmax := by intro x h; cases h; simp [maxHeight]
+
+/-- a function's code object: entered at height 0, never left by falling off its end -/
+def fnCtx (d : FDecl) (hfit : (htsFn d.body).all (· ≤ maxHeight) = true) : UCtx where
+  code := (compDecl d).code
+  H := htsFn d.body
+  hend := none
+  isMain := false
+  hlen := htsFn_length d.ls d.body
+  hmax := by
+    intro x hx
+    have := List.all_eq_true.mp hfit x hx
+    simpa using this
+  hendmax := by intro x h; cases h
+
+end Risor.C04.FunC
